@@ -9,9 +9,14 @@ import Proofs.EngineExec
 * `fireAll`: the *good environment*: every timer fires, every awaited external event is delivered.
 * crash-free, fault-free visits of the handlers (`*_visit`), table frames of the handlers and of
   `run` (`run_frame`).
+* `kept s k` (`= finalTbl e s k`): what the backend holds after an invocation that ends in `s` when
+  `k` of the asynchronous updates in flight got through; `Full` (working table = acknowledged table +
+  everything in flight) is an invariant of `run`; `kept_mono` (every kept table is below the working
+  table), `kept_keeps` (terminal and parking records — written synchronously — are never lost).
 * `live`: an infinite sequence of invocations of a `Bounded`, replay-stable (`LScoped`) program, each
-  on the table the good environment makes of the previous one, cannot consist of suspensions only
-  (structural induction on the program; `GoodSeq`, `GoodSeq.cont`, `GoodSeq.phase2`).
+  on the table the good environment makes of what the backend kept of the previous one — for an
+  arbitrary keep plan —, cannot consist of suspensions only (structural induction on the program;
+  `GoodSeq`, `GoodSeq.cont`, `GoodSeq.phase2`).
 * `good_terminates'`: executions from the empty table driven by the good environment end after
   finitely many suspended rounds; `good_no_fault`: none of their rounds ends `ckptFailed`;
   `run_crashed_budget`: `crashed` only with an exhausted crash budget.
@@ -492,13 +497,30 @@ theorem parentOk_upsert {t : Tbl} {q : Pos} (h : Backend.parentOk t q = true) (r
       omega
     rw [lookup_upsert_ne _ _ hne]; exact h
 
+/-- Nothing is in flight: every update handed over so far is acknowledged. -/
+def Synced (s : St) : Prop := s.pending = [] ∧ s.syncTbl = s.tbl
+
+theorem ck_synced {s s' : St} {u : Upd} (hs : u.sync = true) (hc : checkpoint s u = .ok s') : Synced s' := by
+  obtain ⟨_, _, t', _, rfl⟩ := EngineH.checkpoint_sync_ok_inv hs hc
+  exact ⟨rfl, rfl⟩
+
+theorem synced_of_eq {s s' : St} (h : Synced s) (h1 : s'.pending = s.pending) (h2 : s'.syncTbl = s.syncTbl)
+    (h3 : s'.tbl = s.tbl) : Synced s' := ⟨by rw [h1]; exact h.1, by rw [h2, h3]; exact h.2⟩
+
+theorem synced_deliverAt {s : St} (h : Synced s) {p : Pos} {o : Outcome} {s' : St}
+    (hd : deliverAt s p o = .deliver o s') : Synced s' := by
+  obtain ⟨s'', he, hsame⟩ := deliverAt_same s p o
+  rw [he] at hd
+  cases hd
+  exact synced_of_eq h hsame.pending hsame.syncTbl hsame.tbl
+
 /-- What one visit of a step at `q` whose record has made `a` attempts leads to: the step is
 delivered (its record is final), the invocation crashes, or it suspends on the PENDING record with
 one more attempt — and then the retry strategy asked for that retry. -/
 def StepPost (sp : StepSpec) (q : Pos) (a : Nat) : HRes → Prop
-  | .deliver o s' => ∃ r', lookup s'.tbl q = some r' ∧ Done r' = true ∧ StepDeliv sp q o r'
+  | .deliver o s' => ∃ r', lookup s'.tbl q = some r' ∧ Done r' = true ∧ StepDeliv sp q o r' ∧ Synced s'
   | .stop e s' => e = .crashed ∨ ∃ d r' ex, e = .suspended d ∧ lookup s'.tbl q = some r' ∧ r'.kind = .step ∧
-      r'.status = .pending ∧ r'.attempt = a + 1 ∧ (sp.strategy ex (a + 1)).isSome = true
+      r'.status = .pending ∧ r'.attempt = a + 1 ∧ (sp.strategy ex (a + 1)).isSome = true ∧ Synced s'
 
 theorem retry_visit {s : St} {q : Pos} (sp : StepSpec) (r : Option OpRec) (e : Exc) {rt : OpRec}
     (hok : StOk s) (hp : Backend.parentOk s.tbl q = true) (hl : lookup s.tbl q = some rt)
@@ -516,7 +538,7 @@ theorem retry_visit {s : St} {q : Pos} (sp : StepSpec) (r : Option OpRec) (e : E
     · rw [hc]; exact Or.inl rfl
     · rw [hc]
       refine Or.inr ⟨_, retryRec rt none (some (ErrObj.ofExc e)), e, rfl,
-        by rw [htbl]; exact lookup_upsert_same _ _ _, hk, rfl, rfl, ?_⟩
+        by rw [htbl]; exact lookup_upsert_same _ _ _, hk, rfl, rfl, ?_, ck_synced rfl hc⟩
       rw [← hatt, hstr]; rfl
   | none =>
     simp only []
@@ -532,10 +554,12 @@ theorem retry_visit {s : St} {q : Pos} (sp : StepSpec) (r : Option OpRec) (e : E
       · rename_i hinv
         obtain ⟨s'', hd, ht⟩ := deliverAt_deliver s' q (.err e)
         rw [hd]
-        exact ⟨_, by rw [ht]; exact hl', rfl, Or.inr ⟨e, hinv, hprov hinv, rfl, outcomeOf_failRec _ _⟩⟩
+        exact ⟨_, by rw [ht]; exact hl', rfl, Or.inr ⟨e, hinv, hprov hinv, rfl, outcomeOf_failRec _ _⟩,
+          synced_deliverAt (ck_synced rfl hc) hd⟩
       · obtain ⟨s'', hd, ht⟩ := deliverAt_deliver s' q (.err (ErrObj.ofExc e).toCallable)
         rw [hd]
-        exact ⟨_, by rw [ht]; exact hl', rfl, Or.inl (outcomeOf_failRec _ _).symm⟩
+        exact ⟨_, by rw [ht]; exact hl', rfl, Or.inl (outcomeOf_failRec _ _).symm,
+          synced_deliverAt (ck_synced rfl hc) hd⟩
 
 theorem stepExecute_visit {s : St} {q : Pos} (sp : StepSpec) (r : Option OpRec) {rt : OpRec}
     (hok : StOk s) (hp : Backend.parentOk s.tbl q = true) (hl : lookup s.tbl q = some rt)
@@ -561,7 +585,8 @@ theorem stepExecute_visit {s : St} {q : Pos} (sp : StepSpec) (r : Option OpRec) 
         simp only []
         obtain ⟨s'', hd, ht⟩ := deliverAt_deliver s' q (.ok v)
         rw [hd]
-        exact ⟨_, by rw [ht, htbl]; exact lookup_upsert_same _ _ _, rfl, Or.inl (outcomeOf_succRec _ _ _).symm⟩
+        exact ⟨_, by rw [ht, htbl]; exact lookup_upsert_same _ _ _, rfl, Or.inl (outcomeOf_succRec _ _ _).symm,
+          synced_deliverAt (ck_synced rfl hc) hd⟩
     | err e =>
       simp only []
       exact retry_visit sp r e hok1 hp hl hk hst hatt (fun _ => Or.inl ⟨_, hbody⟩)
@@ -617,9 +642,9 @@ theorem handleStep_visit {s : St} {q : Pos} (sp : StepSpec) (a : Nat)
 
 /-- What one visit of a wait-for-condition at `q` whose record has made `a` attempts leads to. -/
 def WfcPost (w : WfcSpec) (q : Pos) (a : Nat) : HRes → Prop
-  | .deliver o s' => ∃ r', lookup s'.tbl q = some r' ∧ Done r' = true ∧ WfcDeliv w o r'
+  | .deliver o s' => ∃ r', lookup s'.tbl q = some r' ∧ Done r' = true ∧ WfcDeliv w o r' ∧ Synced s'
   | .stop e s' => e = .crashed ∨ ∃ d r' v, e = .suspended d ∧ lookup s'.tbl q = some r' ∧ r'.kind = .wfc ∧
-      r'.status = .pending ∧ r'.attempt = a + 1 ∧ (w.decide v (a + 1)).isSome = true
+      r'.status = .pending ∧ r'.attempt = a + 1 ∧ (w.decide v (a + 1)).isSome = true ∧ Synced s'
 
 theorem wfcExecute_visit {s : St} {q : Pos} (w : WfcSpec) (r : Option OpRec) {rt : OpRec}
     (hok : StOk s) (hp : Backend.parentOk s.tbl q = true) (hl : lookup s.tbl q = some rt)
@@ -649,7 +674,8 @@ theorem wfcExecute_visit {s : St} {q : Pos} (w : WfcSpec) (r : Option OpRec) {rt
           simp only []
           obtain ⟨s'', hd, ht⟩ := deliverAt_deliver s' q (.ok ns)
           rw [hd]
-          exact ⟨_, by rw [ht, htbl]; exact lookup_upsert_same _ _ _, rfl, Or.inl (outcomeOf_succRec _ _ _).symm⟩
+          exact ⟨_, by rw [ht, htbl]; exact lookup_upsert_same _ _ _, rfl, Or.inl (outcomeOf_succRec _ _ _).symm,
+            synced_deliverAt (ck_synced rfl hc) hd⟩
       | some d =>
         simp only []
         have happ := apply_retry (t := s.tbl) (u := EngineH.wfcRetryUpd q ns d) (imm := .none) hp hl rfl hk
@@ -659,7 +685,7 @@ theorem wfcExecute_visit {s : St} {q : Pos} (w : WfcSpec) (r : Option OpRec) {rt
         · rw [hc]; exact Or.inl rfl
         · rw [hc]
           refine Or.inr ⟨_, retryRec rt (some ns) none, ns, rfl,
-            by rw [htbl]; exact lookup_upsert_same _ _ _, hk, rfl, rfl, ?_⟩
+            by rw [htbl]; exact lookup_upsert_same _ _ _, hk, rfl, rfl, ?_, ck_synced rfl hc⟩
           rw [← hatt, hdec]; rfl
     | err e =>
       simp only []
@@ -673,7 +699,7 @@ theorem wfcExecute_visit {s : St} {q : Pos} (w : WfcSpec) (r : Option OpRec) {rt
         obtain ⟨s'', hd, ht⟩ := deliverAt_deliver s' q (.err e)
         rw [hd]
         exact ⟨_, by rw [ht, htbl]; exact lookup_upsert_same _ _ _, rfl,
-          Or.inr ⟨e, _, _, hcheck, rfl, outcomeOf_failRec _ _⟩⟩
+          Or.inr ⟨e, _, _, hcheck, rfl, outcomeOf_failRec _ _⟩, synced_deliverAt (ck_synced rfl hc) hd⟩
 
 /-- **Progress of a wait-for-condition.**  From a position whose record is absent, READY or STARTED. -/
 theorem handleWfc_visit {s : St} {q : Pos} (w : WfcSpec) (a : Nat)
@@ -704,7 +730,7 @@ theorem handleWait_visit {s : St} {q : Pos} (secs : Nat) (hok : StOk s)
     (hp : Backend.parentOk s.tbl q = true) (hl : lookup s.tbl q = none) :
     (∃ s', handleWait s q secs = .stop .crashed s') ∨
     (∃ s', handleWait s q secs = .stop (.suspended (some secs)) s' ∧
-      lookup s'.tbl q = some { kind := .wait, status := .started }) := by
+      lookup s'.tbl q = some { kind := .wait, status := .started } ∧ Synced s') := by
   unfold handleWait
   rw [hl]
   simp only []
@@ -717,14 +743,14 @@ theorem handleWait_visit {s : St} {q : Pos} (secs : Nat) (hok : StOk s)
     have hl' : lookup s'.tbl q = some { kind := .wait, status := .started } := by
       rw [htbl]; exact lookup_upsert_same _ _ _
     rw [hl']
-    exact Or.inr ⟨s', rfl, hl'⟩
+    exact Or.inr ⟨s', rfl, hl', ck_synced rfl hc⟩
 
 /-- **Progress of a chained invoke**, first visit. -/
 theorem handleInvoke_visit {s : St} {q : Pos} (payload : Val) (hok : StOk s)
     (hp : Backend.parentOk s.tbl q = true) (hl : lookup s.tbl q = none) :
     (∃ s', handleInvoke s q payload = .stop .crashed s') ∨
     (∃ s', handleInvoke s q payload = .stop (.suspended (some 0)) s' ∧
-      lookup s'.tbl q = some { kind := .invoke, status := .started }) := by
+      lookup s'.tbl q = some { kind := .invoke, status := .started } ∧ Synced s') := by
   unfold handleInvoke
   rw [hl]
   simp only []
@@ -737,13 +763,14 @@ theorem handleInvoke_visit {s : St} {q : Pos} (payload : Val) (hok : StOk s)
     have hl' : lookup s'.tbl q = some { kind := .invoke, status := .started } := by
       rw [htbl]; exact lookup_upsert_same _ _ _
     rw [hl']
-    exact Or.inr ⟨s', rfl, hl'⟩
+    exact Or.inr ⟨s', rfl, hl', ck_synced rfl hc⟩
 
 /-- **Progress of `create_callback`**, first visit: the callback is registered and the handle returned. -/
 theorem handleCbNew_visit {s : St} {q : Pos} (hok : StOk s)
     (hp : Backend.parentOk s.tbl q = true) (hl : lookup s.tbl q = none) :
     (∃ s', handleCbNew s q = .error (.crashed, s')) ∨
-    (∃ s', handleCbNew s q = .ok s' ∧ lookup s'.tbl q = some { kind := .callback, status := .started }) := by
+    (∃ s', handleCbNew s q = .ok s' ∧ lookup s'.tbl q = some { kind := .callback, status := .started } ∧
+      Synced s') := by
   unfold handleCbNew
   rw [hl]
   simp only []
@@ -756,12 +783,14 @@ theorem handleCbNew_visit {s : St} {q : Pos} (hok : StOk s)
     have hl' : lookup s'.tbl q = some { kind := .callback, status := .started } := by
       rw [htbl]; exact lookup_upsert_same _ _ _
     rw [hl']
-    exact Or.inr ⟨_, rfl, by simpa using hl'⟩
+    exact Or.inr ⟨_, rfl, by simpa using hl',
+      synced_of_eq (ck_synced rfl hc) (by simp) (by simp) (by simp)⟩
 
 /-- A child context entered for the first time: its START is handed over and the body runs. -/
 theorem childBefore_visit {s : St} {q : Pos} (hok : StOk s)
     (hp : Backend.parentOk s.tbl q = true) (hl : lookup s.tbl q = none) :
-    ∃ s', childBefore s q = .inr (s', false) ∧ lookup s'.tbl q = some { kind := .context, status := .started } := by
+    ∃ s', childBefore s q = .inr (s', false) ∧ lookup s'.tbl q = some { kind := .context, status := .started } ∧
+      s'.syncTbl = s.syncTbl := by
   unfold childBefore
   rw [hl]
   simp only []
@@ -770,11 +799,16 @@ theorem childBefore_visit {s : St} {q : Pos} (hok : StOk s)
   rcases ck_cases hok happ with ⟨s', hc⟩ | ⟨s', hc, htbl, _⟩
   · rw [EngineH.checkpoint_async _ _ rfl] at hc; cases hc
   · rw [hc]
-    exact ⟨_, rfl, by rw [EngineRun.emit_tbl, htbl]; exact lookup_upsert_same _ _ _⟩
+    refine ⟨_, rfl, by rw [EngineRun.emit_tbl, htbl]; exact lookup_upsert_same _ _ _, ?_⟩
+    rw [EngineH.checkpoint_async _ _ rfl] at hc
+    cases hc
+    show (EngineH.ckAsync s _).syncTbl = _
+    unfold EngineH.ckAsync
+    split <;> rfl
 
 /-- What the completion of a child context whose record is STARTED leads to. -/
 def ChildPost (c : ChildSpec) (q : Pos) (e : End) : HRes → Prop
-  | .deliver o s' => ∃ r', lookup s'.tbl q = some r' ∧ Done r' = true ∧
+  | .deliver o s' => ∃ r', lookup s'.tbl q = some r' ∧ Done r' = true ∧ Synced s' ∧
       ((∃ v, e = .returned v ∧ o = .ok v ∧
           (c.large v = false → r'.replayChildren = false ∧ outcomeOf r' = .ok v) ∧
           (c.large v = true → r'.status = .succeeded ∧ r'.replayChildren = true)) ∨
@@ -803,7 +837,8 @@ theorem childAfter_visit {s : St} {q : Pos} (c : ChildSpec) (e : End) {rt : OpRe
       simp only []
       obtain ⟨s'', hd, ht⟩ := deliverAt_deliver s' q (.ok v)
       rw [hd]
-      refine ⟨_, by rw [ht, htbl, hpos]; exact lookup_upsert_same _ _ _, rfl, Or.inl ⟨v, rfl, rfl, ?_, ?_⟩⟩
+      refine ⟨_, by rw [ht, htbl, hpos]; exact lookup_upsert_same _ _ _, rfl,
+        synced_deliverAt (ck_synced (by subst hu; split <;> rfl) hc) hd, Or.inl ⟨v, rfl, rfl, ?_, ?_⟩⟩
       · intro hlarge
         subst hu
         simp only [hlarge, Bool.false_eq_true, if_false]
@@ -827,10 +862,12 @@ theorem childAfter_visit {s : St} {q : Pos} (c : ChildSpec) (e : End) {rt : OpRe
       · rename_i hinv
         obtain ⟨s'', hd, ht⟩ := deliverAt_deliver s' q (.err ex)
         rw [hd]
-        exact ⟨_, by rw [ht]; exact hl', rfl, Or.inr ⟨ex, rfl, hrc, Or.inr ⟨hinv, rfl, outcomeOf_failRec _ _⟩⟩⟩
+        exact ⟨_, by rw [ht]; exact hl', rfl, synced_deliverAt (ck_synced rfl hc) hd,
+          Or.inr ⟨ex, rfl, hrc, Or.inr ⟨hinv, rfl, outcomeOf_failRec _ _⟩⟩⟩
       · obtain ⟨s'', hd, ht⟩ := deliverAt_deliver s' q (.err (ErrObj.ofExc ex).toCallable)
         rw [hd]
-        exact ⟨_, by rw [ht]; exact hl', rfl, Or.inr ⟨ex, rfl, hrc, Or.inl (outcomeOf_failRec _ _).symm⟩⟩
+        exact ⟨_, by rw [ht]; exact hl', rfl, synced_deliverAt (ck_synced rfl hc) hd,
+          Or.inr ⟨ex, rfl, hrc, Or.inl (outcomeOf_failRec _ _).symm⟩⟩
   | suspended d => exact Or.inr ⟨rfl, (fun v hv => by cases hv), (fun v hv => by cases hv)⟩
   | crashed => exact Or.inl rfl
   | ckptFailed => exact Or.inr ⟨rfl, (fun v hv => by cases hv), (fun v hv => by cases hv)⟩
@@ -1075,25 +1112,6 @@ theorem compat_child_replay_inv {c : ChildSpec} {body : Prog} {k : Outcome → P
   | childReplay hl' _ _ hv' hc =>
     rw [returns_unique hv hv']; exact hc
 
-/-- The operation at `h` is resolved (its record makes `Callback.result()` deliver) from the second
-invocation of the sequence on, and stays so; in the first one it is outstanding or already so. -/
-def Resolved (seq : Nat → St) (h : Pos) : Prop :=
-  ∃ rs, (cbOut rs).isSome = true ∧ (∀ i, 1 ≤ i → lookup (seq i).tbl h = some rs) ∧
-    ∃ r0, lookup (seq 0).tbl h = some r0 ∧ (cbOut r0 = none ∨ r0 = rs)
-
-/-- An infinite sequence of invocations of the fragment `p` at `(ctx, n)`, each of which suspends,
-each on the table the good environment makes of the table the previous one left. -/
-structure GoodSeq (outc : Pos → Backend.Immediate) (p : Prog) (ctx : Pos) (n : Nat)
-    (seq : Nat → St) : Prop where
-  ok : ∀ i, StOk (seq i)
-  vis : ∀ i, CtxVis (seq i).tbl ctx
-  par : ∀ i, CtxOk ctx (seq i).tbl
-  res : ∀ h, Past h ctx n → Resolved seq h
-  fresh : Untouched ctx n (seq 0).tbl
-  compat : ∀ i, Compat p ctx n (seq i).tbl
-  susp : ∀ i, ∃ d, (run p ctx n (seq i)).1 = .suspended d
-  next : ∀ i, (seq (i + 1)).tbl = Exec.visible (fireAll outc (run p ctx n (seq i)).2.tbl)
-
 /-! ## More on `fireRec`, `Mono` -/
 
 theorem fireRec_pending {o : Backend.Immediate} {r : OpRec} (hk : r.kind = .step ∨ r.kind = .wfc)
@@ -1158,6 +1176,369 @@ theorem mv_mono {E : Ev → Prop} {a b : St} (h : EngineExec.Mv E a b) : Mono a.
 theorem run_mono (p : Prog) (ctx : Pos) (n : Nat) (s : St) : Mono s.tbl (run p ctx n s).2.tbl :=
   mv_mono (EngineExec.run_mv p ctx n s)
 
+/-- A table predicate preserved by every accepted update holds of the working table and of the
+acknowledged table after any number of moves. -/
+theorem mv_stable' {Q : Tbl → Prop} (hQ : ∀ t u imm t', Backend.apply t u imm = some t' → Q t → Q t')
+    {E : Ev → Prop} {a b : St} (h : EngineExec.Mv E a b) :
+    Q a.tbl ∧ Q a.syncTbl → Q b.tbl ∧ Q b.syncTbl := by
+  induction h with
+  | refl => exact id
+  | silent e1 _ e3 _ _ _ ih => intro h; exact ih (by rw [e1, e3]; exact h)
+  | emit e _ _ ih => intro h; exact ih h
+  | async u _ _ ha _ e3 _ _ _ ih => intro h; exact ih ⟨hQ _ _ _ _ ha h.1, by rw [e3]; exact h.2⟩
+  | asyncRej _ _ e1 _ e3 _ _ _ ih => intro h; exact ih (by rw [e1, e3]; exact h)
+  | sync u _ ha e2 _ _ _ _ ih =>
+    intro h
+    have := hQ _ _ _ _ ha h.1
+    exact ih ⟨this, by rw [e2]; exact this⟩
+
+theorem applyPrefix_stable' {Q : Tbl → Prop} (hQ : ∀ t u imm t', Backend.apply t u imm = some t' → Q t → Q t')
+    (imm : Pos → Backend.Immediate) : ∀ (l : List Upd) (k : Nat) (t : Tbl), Q t → Q (applyPrefix t imm l k) := by
+  intro l
+  induction l with
+  | nil => intro k t h; simpa [applyPrefix] using h
+  | cons u us ih =>
+    intro k t h
+    cases k with
+    | zero => simpa [applyPrefix] using h
+    | succ k =>
+      simp only [applyPrefix]
+      split
+      · rename_i t' ha; exact ih k t' (hQ _ _ _ _ ha h)
+      · exact ih k t h
+
+/-! ## What the backend keeps of an invocation -/
+
+/-- The table the backend holds after an invocation that ends in state `s`, if the first `k`
+asynchronous updates in flight were still delivered (`= finalTbl e s k` for every ending `e`). -/
+def kept (s : St) (k : Nat) : Tbl := applyPrefix s.syncTbl s.imm s.pending k
+
+theorem finalTbl_eq_kept (e : End) (s : St) (k : Nat) : finalTbl e s k = kept s k := rfl
+
+/-- The working table is the acknowledged table plus all updates in flight. -/
+def Full (s : St) : Prop := applyPrefix s.syncTbl s.imm s.pending s.pending.length = s.tbl
+
+theorem applyPrefix_mono (imm : Pos → Backend.Immediate) :
+    ∀ (l : List Upd) (k : Nat) (t : Tbl), Mono t (applyPrefix t imm l k) :=
+  fun l k t => applyPrefix_stable' (Q := Mono t) (fun _ _ _ _ ha h => h.trans (apply_mono ha)) imm l k t
+    (Mono.refl t)
+
+theorem applyPrefix_mono_full (imm : Pos → Backend.Immediate) :
+    ∀ (l : List Upd) (k : Nat) (t : Tbl), Mono (applyPrefix t imm l k) (applyPrefix t imm l l.length) := by
+  intro l
+  induction l with
+  | nil => intro k t; simp only [applyPrefix]; cases k <;> exact Mono.refl _
+  | cons u us ih =>
+    intro k t
+    cases k with
+    | zero =>
+      simp only [applyPrefix, List.length_cons]
+      split
+      · rename_i t' ha; exact (apply_mono ha).trans (applyPrefix_mono imm us us.length t')
+      · exact applyPrefix_mono imm us us.length t
+    | succ k =>
+      simp only [applyPrefix, List.length_cons]
+      split
+      · exact ih k _
+      · exact ih k _
+
+/-- Every kept table is below the working table. -/
+theorem kept_mono {s : St} (h : Full s) (k : Nat) : Mono (kept s k) s.tbl := by
+  have := applyPrefix_mono_full s.imm s.pending k s.syncTbl
+  rw [h] at this
+  exact this
+
+theorem kept_none {s : St} (h : Full s) (k : Nat) {q : Pos} (hl : lookup s.tbl q = none) :
+    lookup (kept s k) q = none := by
+  cases hk : lookup (kept s k) q with
+  | none => rfl
+  | some r =>
+    obtain ⟨r', hl', _⟩ := kept_mono h k q r hk
+    rw [hl] at hl'; cases hl'
+
+theorem kept_untouched {s : St} (h : Full s) (k : Nat) {ctx : Pos} {m : Nat} (hu : Untouched ctx m s.tbl) :
+    Untouched ctx m (kept s k) := fun x hx => kept_none h k (hu x hx)
+
+theorem kept_synced {s : St} (h : Synced s) (k : Nat) : kept s k = s.tbl := by
+  unfold kept
+  rw [h.1, h.2]
+  cases k <;> rfl
+
+theorem applyPrefix_keeps (imm : Pos → Backend.Immediate) {q : Pos} {r : OpRec}
+    (hr : r.status.terminal = true ∨ Parked r = true) :
+    ∀ (l : List Upd) (k : Nat) (t : Tbl), (∀ u ∈ l, EngineRun.AsyncStart u) → lookup t q = some r →
+      lookup (applyPrefix t imm l k) q = some r := by
+  intro l
+  induction l with
+  | nil => intro k t _ h; simpa [applyPrefix] using h
+  | cons u us ih =>
+    intro k t hl h
+    cases k with
+    | zero => simpa [applyPrefix] using h
+    | succ k =>
+      simp only [applyPrefix]
+      have hus : ∀ x ∈ us, EngineRun.AsyncStart x := fun x hx => hl x (List.mem_cons_of_mem _ hx)
+      split
+      · rename_i t' ha
+        refine ih k t' hus ?_
+        by_cases hq : u.pos = q
+        · subst hq
+          obtain ⟨_, hst, _⟩ := EngineH.apply_start_present_inv h (hl u (List.mem_cons_self ..)).2.1 ha
+          rcases hr with hr | hr
+          · rw [hst] at hr; cases hr
+          · simp [Parked, hst] at hr
+        · rw [EngineRun.apply_lookup_ne ha hq]; exact h
+      · exact ih k t hus h
+
+/-- **Synchronously written records are never lost**: a terminal or parking record of the working
+table is in every kept table. -/
+theorem kept_keeps {s : St} (hw : EngineRun.WAL s) (k : Nat) {q : Pos} {r : OpRec}
+    (hl : lookup s.tbl q = some r) (hr : r.status.terminal = true ∨ Parked r = true) :
+    lookup (kept s k) q = some r :=
+  applyPrefix_keeps s.imm hr s.pending k s.syncTbl hw.pending (hw.acked q r hl hr)
+
+theorem ctxVis_of_mono_rev {ctx : Pos} {t K : Tbl} (hm : Mono K t) (h : CtxVis t ctx) : CtxVis K ctx := by
+  intro k hk0 hk
+  have ht := h k hk0 hk
+  unfold hides at ht ⊢
+  cases hl : lookup K (ctx.take k) with
+  | none => rfl
+  | some r =>
+    obtain ⟨r', hl', hkd, heq⟩ := hm _ _ hl
+    rw [hl'] at ht
+    simp only [] at ht ⊢
+    by_cases hterm : r.status.terminal = true
+    · rw [heq hterm] at ht; exact ht
+    · have : r.status.terminal = false := by simpa using hterm
+      simp [this]
+
+/-! ### `Full` is an invariant -/
+
+theorem full_of_eq {s s' : St} (h : Full s) (h1 : s'.tbl = s.tbl) (h2 : s'.syncTbl = s.syncTbl)
+    (h3 : s'.pending = s.pending) (h4 : s'.imm = s.imm) : Full s' := by
+  unfold Full at h ⊢
+  rw [h1, h2, h3, h4]; exact h
+
+theorem full_init (t : Tbl) (b : Nat) (f : Option Nat) (imm : Pos → Backend.Immediate) :
+    Full (initSt t b f imm) := rfl
+
+open EngineRun in
+theorem full_ck_ok {s u s'} (h : Full s) (hc : checkpoint s u = .ok s') : Full s' := by
+  have hs := checkpoint_spec s u
+  rw [hc] at hs
+  unfold Full at h ⊢
+  cases hs with
+  | asyncApplied t hs ha =>
+    show applyPrefix s.syncTbl s.imm (s.pending ++ [u]) (s.pending ++ [u]).length = t
+    rw [applyPrefix_append, if_neg (by simp), h, ha]
+  | asyncRejected hs ha =>
+    show applyPrefix s.syncTbl s.imm (s.pending ++ [u]) (s.pending ++ [u]).length = s.tbl
+    rw [applyPrefix_append, if_neg (by simp), h, ha]
+  | syncApplied t hs hf ha => rfl
+
+open EngineRun in
+theorem full_ck_err {s u e s'} (h : Full s) (hc : checkpoint s u = .error (e, s')) : Full s' := by
+  have hs := checkpoint_spec s u
+  rw [hc] at hs
+  cases hs with
+  | crashBefore hs => exact full_of_eq h rfl rfl rfl rfl
+  | fault hs hf => exact full_of_eq h rfl rfl rfl rfl
+  | rejected hs hf ha => exact full_of_eq h rfl rfl rfl rfl
+  | crashAfter t hs hf ha => rfl
+
+theorem full_tick {s s' : St} (h : Full s) (ht : tick s = some s') : Full s' := by
+  rw [EngineRun.tick_some ht]; exact full_of_eq h rfl rfl rfl rfl
+
+theorem full_track {s : St} {p : Pos} (h : Full s) : Full (trackReplay s p) :=
+  full_of_eq h (EngineRun.trackReplay_tbl s p) (EngineRun.trackReplay_syncTbl s p)
+    (EngineRun.trackReplay_pending s p) (EngineRun.trackReplay_imm s p)
+
+theorem full_emit {s : St} {e : Ev} (h : Full s) : Full (emit s e) := full_of_eq h rfl rfl rfl rfl
+
+syntax "fu_close" : tactic
+macro_rules | `(tactic| fu_close) => `(tactic| first
+  | assumption
+  | (refine full_track ?_; fu_close)
+  | (refine full_emit ?_; fu_close)
+  | (refine full_tick ?_ ‹_›; fu_close)
+  | (refine full_ck_ok ?_ ‹_›; fu_close)
+  | (refine full_ck_err ?_ ‹_›; fu_close))
+
+theorem full_deliverAt {s p o} (h : Full s) : Full (deliverAt s p o).st := by
+  unfold deliverAt
+  split <;> simp only [EngineRun.st_deliver] <;> fu_close
+
+syntax "fu_close2" : tactic
+macro_rules | `(tactic| fu_close2) => `(tactic| first
+  | (refine full_deliverAt ?_; fu_close)
+  | fu_close)
+
+theorem full_retryHandler {s p spec r e} (h : Full s) : Full (retryHandler s p spec r e).st := by
+  unfold retryHandler
+  dsimp only
+  repeat' split
+  all_goals try simp only [EngineRun.st_deliver, EngineRun.st_stop]
+  all_goals fu_close2
+
+theorem full_stepExecute {s p spec r} (h : Full s) : Full (stepExecute s p spec r).st := by
+  unfold stepExecute
+  dsimp only
+  repeat' split
+  all_goals try simp only [EngineRun.st_deliver, EngineRun.st_stop]
+  all_goals first | fu_close2 | (refine full_retryHandler ?_; fu_close)
+
+theorem full_wfcExecute {s p w r} (h : Full s) : Full (wfcExecute s p w r).st := by
+  unfold wfcExecute
+  dsimp only
+  repeat' split
+  all_goals try simp only [EngineRun.st_deliver, EngineRun.st_stop]
+  all_goals fu_close2
+
+syntax "fu_close3" : tactic
+macro_rules | `(tactic| fu_close3) => `(tactic| first
+  | fu_close2
+  | (refine full_retryHandler ?_; fu_close)
+  | (refine full_stepExecute ?_; fu_close)
+  | (refine full_wfcExecute ?_; fu_close))
+
+theorem full_handleStep {s p spec} (h : Full s) : Full (handleStep s p spec).st := by
+  unfold handleStep
+  repeat' split
+  all_goals try simp only [EngineRun.st_deliver, EngineRun.st_stop]
+  all_goals fu_close3
+
+theorem full_handleWait {s p secs} (h : Full s) : Full (handleWait s p secs).st := by
+  unfold handleWait
+  repeat' split
+  all_goals try simp only [EngineRun.st_deliver, EngineRun.st_stop]
+  all_goals fu_close3
+
+theorem full_handleInvoke {s p v} (h : Full s) : Full (handleInvoke s p v).st := by
+  unfold handleInvoke invokeTerminal
+  repeat' split
+  all_goals try simp only [EngineRun.st_deliver, EngineRun.st_stop, Option.getD]
+  all_goals fu_close3
+
+theorem full_handleWfc {s p w} (h : Full s) : Full (handleWfc s p w).st := by
+  unfold handleWfc
+  dsimp only
+  repeat' split
+  all_goals try simp only [EngineRun.st_deliver, EngineRun.st_stop]
+  all_goals fu_close3
+
+theorem full_handleCbRes {s hd} (h : Full s) : Full (handleCbRes s hd).st := by
+  unfold handleCbRes
+  dsimp only
+  repeat' split
+  all_goals try simp only [EngineRun.st_deliver, EngineRun.st_stop]
+  all_goals fu_close3
+
+theorem full_handleCbNew {s p} (h : Full s) : Full (EngineRun.Except.st (handleCbNew s p)) := by
+  unfold handleCbNew
+  repeat' split
+  all_goals try simp only [EngineRun.st_ok, EngineRun.st_error]
+  all_goals fu_close3
+
+theorem full_childBefore {s p} (h : Full s) : Full (EngineRun.childSt (childBefore s p)) := by
+  unfold childBefore
+  repeat' split
+  all_goals try simp only [EngineRun.st_inl, EngineRun.st_inr, EngineRun.st_deliver, EngineRun.st_stop]
+  all_goals fu_close3
+
+theorem full_childAfter {s p c m e} (h : Full s) : Full (childAfter s p c m e).st := by
+  unfold childAfter
+  dsimp only
+  repeat' split
+  all_goals try simp only [EngineRun.st_deliver, EngineRun.st_stop]
+  all_goals fu_close3
+
+theorem full_run (p : Prog) (ctx : Pos) (n : Nat) (s : St) (h : Full s) : Full (run p ctx n s).2 :=
+  EngineRun.run_inv Full
+    (fun _ _ _ h => full_emit h)
+    (fun _ _ _ h => full_handleStep h)
+    (fun _ _ _ h => full_handleWait h)
+    (fun _ _ h => full_handleCbNew h)
+    (fun _ _ h => full_handleCbRes h)
+    (fun _ _ _ h => full_handleInvoke h)
+    (fun _ _ _ h => full_handleWfc h)
+    (fun _ _ h => full_childBefore h)
+    (fun _ _ _ _ _ _ _ _ _ _ _ h => full_childAfter h)
+    p ctx n s h
+
+/-! ### The state invariant carried along the sequences -/
+
+/-- Fault-free, write-ahead, and the working table is the acknowledged one plus what is in flight. -/
+structure SInv (s : St) : Prop where
+  ok : StOk s
+  wal : EngineRun.WAL s
+  full : Full s
+
+theorem sinv_init (t : Tbl) (b : Nat) : SInv (initSt t b none (fun _ => .none)) :=
+  ⟨stOk_init t b, EngineRun.wal_init _ _ _ _, full_init _ _ _ _⟩
+
+theorem sinv_run {s : St} (h : SInv s) (p : Prog) (ctx : Pos) (n : Nat) : SInv (run p ctx n s).2 :=
+  ⟨stOk_run h.ok, EngineRun.wal_run p ctx n s h.wal, full_run p ctx n s h.full⟩
+
+theorem sinv_doLog {s : St} (h : SInv s) (ctx : Pos) (m : String) : SInv (doLog s ctx m) :=
+  ⟨h.ok.of_same rfl rfl, EngineRun.wal_doLog h.wal, full_emit h.full⟩
+
+theorem sinv_handleStep {s : St} (h : SInv s) (p : Pos) (sp : StepSpec) : SInv (handleStep s p sp).st :=
+  ⟨h.ok.of_frame (EngineRun.frame_handleStep (EngineRun.Frame.refl p s)), EngineRun.wal_handleStep h.wal,
+    full_handleStep h.full⟩
+
+theorem sinv_handleWfc {s : St} (h : SInv s) (p : Pos) (w : WfcSpec) : SInv (handleWfc s p w).st :=
+  ⟨h.ok.of_frame (EngineRun.frame_handleWfc (EngineRun.Frame.refl p s)), EngineRun.wal_handleWfc h.wal,
+    full_handleWfc h.full⟩
+
+theorem sinv_handleWait {s : St} (h : SInv s) (p : Pos) (secs : Nat) : SInv (handleWait s p secs).st :=
+  ⟨h.ok.of_frame (EngineRun.frame_handleWait (EngineRun.Frame.refl p s)), EngineRun.wal_handleWait h.wal,
+    full_handleWait h.full⟩
+
+theorem sinv_handleInvoke {s : St} (h : SInv s) (p : Pos) (v : Val) : SInv (handleInvoke s p v).st :=
+  ⟨h.ok.of_frame (EngineRun.frame_handleInvoke (EngineRun.Frame.refl p s)), EngineRun.wal_handleInvoke h.wal,
+    full_handleInvoke h.full⟩
+
+theorem sinv_handleCbRes {s : St} (h : SInv s) (hd : Pos) : SInv (handleCbRes s hd).st :=
+  ⟨h.ok.of_frame (EngineRun.frame_handleCbRes (EngineRun.Frame.refl hd s)), EngineRun.wal_handleCbRes h.wal,
+    full_handleCbRes h.full⟩
+
+theorem sinv_handleCbNew {s : St} (h : SInv s) (p : Pos) : SInv (EngineRun.Except.st (handleCbNew s p)) :=
+  ⟨h.ok.of_frame (EngineRun.frame_handleCbNew (EngineRun.Frame.refl p s)), EngineRun.wal_handleCbNew h.wal,
+    full_handleCbNew h.full⟩
+
+theorem sinv_childBefore {s : St} (h : SInv s) (p : Pos) : SInv (EngineRun.childSt (childBefore s p)) :=
+  ⟨h.ok.of_frame (EngineRun.frame_childBefore (EngineRun.Frame.refl p s)), EngineRun.wal_childBefore h.wal,
+    full_childBefore h.full⟩
+
+theorem sinv_deliverAt {s : St} (h : SInv s) (p : Pos) (o : Outcome)
+    (hr : ∃ r, lookup s.tbl p = some r ∧ r.status.terminal = true) : SInv (deliverAt s p o).st :=
+  ⟨h.ok.of_frame (EngineRun.frame_deliverAt (EngineRun.Frame.refl p s)), EngineRun.wal_deliverAt h.wal hr,
+    full_deliverAt h.full⟩
+
+/-- The operation at `h` is resolved (its record makes `Callback.result()` deliver) from the second
+invocation of the sequence on, and stays so; in the first one it is outstanding or already so. -/
+def Resolved (seq : Nat → St) (h : Pos) : Prop :=
+  ∃ rs, (cbOut rs).isSome = true ∧ (∀ i, 1 ≤ i → lookup (seq i).tbl h = some rs) ∧
+    ∃ r0, lookup (seq 0).tbl h = some r0 ∧ (cbOut r0 = none ∨ r0 = rs)
+
+/-- An infinite sequence of invocations of the fragment `p` at `(ctx, n)`, each of which suspends,
+each on the table the good environment makes of what the backend kept of the previous one
+(`keep i` = how many of the asynchronous updates in flight at the end of invocation `i` still
+reached the backend).  The enclosing contexts (`x <+: ctx`) are exempt from `next` and `syn`: their
+START may have been lost and sent again. -/
+structure GoodSeq (outc : Pos → Backend.Immediate) (keep : Nat → Nat) (p : Prog) (ctx : Pos) (n : Nat)
+    (seq : Nat → St) : Prop where
+  ok : ∀ i, SInv (seq i)
+  vis : ∀ i, CtxVis (seq i).tbl ctx
+  par : ∀ i, CtxOk ctx (seq i).tbl
+  res : ∀ h, Past h ctx n → Resolved seq h
+  fresh : Untouched ctx n (seq 0).tbl
+  compat : ∀ i, Compat p ctx n (seq i).tbl
+  susp : ∀ i, ∃ d, (run p ctx n (seq i)).1 = .suspended d
+  syn : ∀ i x, ¬ x <+: ctx → lookup (seq i).syncTbl x = lookup (seq i).tbl x
+  next : ∀ i x, ¬ x <+: ctx → lookup (seq (i + 1)).tbl x =
+    lookup (Exec.visible (fireAll outc (kept (run p ctx n (seq i)).2 (keep i)))) x
+
 /-! ## Tools for the induction -/
 
 theorem exists_least {P : Nat → Prop} (h : ∃ n, P n) : ∃ n, P n ∧ ∀ m, m < n → ¬ P m := by
@@ -1171,34 +1552,77 @@ theorem exists_least {P : Nat → Prop} (h : ∃ n, P n) : ∃ n, P n ∧ ∀ m,
 theorem deliverAt_st (s : St) (p : Pos) (o : Outcome) : deliverAt s p o = .deliver o (deliverAt s p o).st := by
   cases o <;> rfl
 
-theorem stOk_deliverAt {s : St} (h : StOk s) (p : Pos) (o : Outcome) : StOk (deliverAt s p o).st :=
-  h.of_frame (EngineRun.frame_deliverAt (EngineRun.Frame.refl p s))
+theorem deliverAt_st_syncTbl (s : St) (p : Pos) (o : Outcome) : (deliverAt s p o).st.syncTbl = s.syncTbl := by
+  obtain ⟨s', he, hsame⟩ := deliverAt_same s p o
+  rw [he]; exact hsame.syncTbl
 
 theorem Resolved.congr {seq seq' : Nat → St} {h : Pos}
     (he : ∀ i, lookup (seq' i).tbl h = lookup (seq i).tbl h) (hr : Resolved seq h) : Resolved seq' h := by
   obtain ⟨rs, hrs, hall, r0, hr0, hor⟩ := hr
   exact ⟨rs, hrs, fun i hi => by rw [he]; exact hall i hi, r0, by rw [he]; exact hr0, hor⟩
 
-/-- No infinite all-suspended good sequence exists for the fragment `p`, wherever it is placed. -/
+theorem not_prefix_child (ctx : Pos) (m : Nat) : ¬ (ctx ++ [m]) <+: ctx := by
+  intro h
+  have := h.length_le
+  simp at this
+  omega
+
+theorem not_prefix_inRegion {ctx : Pos} {m : Nat} {x : Pos} (h : InRegion ctx m x) : ¬ x <+: ctx := by
+  obtain ⟨i, rest, rfl, _⟩ := h
+  intro hp
+  have := hp.length_le
+  simp at this
+  omega
+
+theorem not_prefix_past {h ctx : Pos} {n : Nat} (hp : Past h ctx n) : ¬ h <+: ctx := by
+  obtain ⟨c, j, rfl, hj, hc | ⟨m, rest, hc, hjm⟩⟩ := hp
+  · rw [hc.1]; exact not_prefix_child ctx j
+  · subst hc
+    intro hpre
+    have := (List.prefix_append_right_inj c).mp hpre
+    simp at this
+    omega
+
+/-- No infinite all-suspended good sequence exists for the fragment `p`, wherever it is placed and
+whatever the backend keeps. -/
 def LiveAt (outc : Pos → Backend.Immediate) (p : Prog) : Prop :=
-  ∀ (ctx : Pos) (n : Nat) (seq : Nat → St), Bounded p → LScoped p ctx n → GoodSeq outc p ctx n seq → False
+  ∀ (ctx : Pos) (n : Nat) (keep : Nat → Nat) (seq : Nat → St), Bounded p → LScoped p ctx n →
+    GoodSeq outc keep p ctx n seq → False
 
 section seqs
-variable {outc : Pos → Backend.Immediate} {p : Prog} {ctx : Pos} {n : Nat} {seq : Nat → St}
+variable {outc : Pos → Backend.Immediate} {keep : Nat → Nat} {p : Prog} {ctx : Pos} {n : Nat} {seq : Nat → St}
 
-theorem GoodSeq.vis_next (g : GoodSeq outc p ctx n seq) (i : Nat) :
-    CtxVis (fireAll outc (run p ctx n (seq i)).2.tbl) ctx :=
-  ctxVis_fireAll (ctxVis_of_frame (run_frame p ctx n (seq i)) (g.vis i))
+theorem GoodSeq.fin (g : GoodSeq outc keep p ctx n seq) (i : Nat) : SInv (run p ctx n (seq i)).2 :=
+  sinv_run (g.ok i) p ctx n
 
-/-- The record of a direct child of `ctx` at the next invocation: what the run left, fired. -/
-theorem GoodSeq.next_child (g : GoodSeq outc p ctx n seq) (i m : Nat) :
+theorem GoodSeq.vis_next (g : GoodSeq outc keep p ctx n seq) (i : Nat) :
+    CtxVis (fireAll outc (kept (run p ctx n (seq i)).2 (keep i))) ctx :=
+  ctxVis_fireAll (ctxVis_of_mono_rev (kept_mono (g.fin i).full _)
+    (ctxVis_of_frame (run_frame p ctx n (seq i)) (g.vis i)))
+
+/-- The record of a direct child of `ctx` at the next invocation: what the backend kept, fired. -/
+theorem GoodSeq.next_child (g : GoodSeq outc keep p ctx n seq) (i m : Nat) :
     lookup (seq (i + 1)).tbl (ctx ++ [m]) =
-      (lookup (run p ctx n (seq i)).2.tbl (ctx ++ [m])).map (fireRec (outc (ctx ++ [m]))) := by
-  rw [g.next i, lookup_visible_of ((g.vis_next i).hidden_child m), lookup_fireAll]
+      (lookup (kept (run p ctx n (seq i)).2 (keep i)) (ctx ++ [m])).map (fireRec (outc (ctx ++ [m]))) := by
+  rw [g.next i _ (not_prefix_child ctx m), lookup_visible_of ((g.vis_next i).hidden_child m), lookup_fireAll]
+
+/-- … in particular a terminal or parking record (written synchronously) is found again, fired. -/
+theorem GoodSeq.next_child_of (g : GoodSeq outc keep p ctx n seq) (i m : Nat) {r : OpRec}
+    (hl : lookup (run p ctx n (seq i)).2.tbl (ctx ++ [m]) = some r)
+    (hr : r.status.terminal = true ∨ Parked r = true) :
+    lookup (seq (i + 1)).tbl (ctx ++ [m]) = some (fireRec (outc (ctx ++ [m])) r) := by
+  rw [g.next_child i m, kept_keeps (g.fin i).wal _ hl hr]; rfl
 
 theorem untouched_next {ctx : Pos} {m : Nat} {t : Tbl} (outc : Pos → Backend.Immediate)
     (h : Untouched ctx m t) : Untouched ctx m (Exec.visible (fireAll outc t)) :=
   untouched_visible ((fireAll_evolve outc t).untouched h)
+
+/-- What the invocation left untouched is untouched at the next invocation. -/
+theorem GoodSeq.untouched_next_of (g : GoodSeq outc keep p ctx n seq) (i : Nat) {m : Nat}
+    (hu : Untouched ctx m (run p ctx n (seq i)).2.tbl) : Untouched ctx m (seq (i + 1)).tbl := by
+  intro x hx
+  rw [g.next i x (not_prefix_inRegion hx)]
+  exact untouched_next outc (kept_untouched (g.fin i).full _ hu) x hx
 
 theorem untouched_of_onlyAt {ctx : Pos} {n : Nat} {s s' : St} (h : Untouched ctx (n + 1) s.tbl)
     (ho : OnlyAt (ctx ++ [n + 1]) s s') : Untouched ctx (n + 1) s'.tbl := by
@@ -1209,6 +1633,9 @@ theorem untouched_of_onlyAt {ctx : Pos} {n : Nat} {s s' : St} (h : Untouched ctx
 theorem frame_of_onlyAt {ctx : Pos} {n : Nat} {s s' : St} (ho : OnlyAt (ctx ++ [n + 1]) s s') :
     Frame ctx n s.tbl s'.tbl := fun q hq => ho q (fun he => hq (he ▸ inRegion_self ctx n))
 
+theorem syn_of_synced {s : St} (h : Synced s) (x : Pos) : lookup s.syncTbl x = lookup s.tbl x := by
+  rw [h.2]
+
 /-- First state `s0`, then `f 0, f 1, …`. -/
 def shiftSeq (s0 : St) (f : Nat → St) : Nat → St
   | 0 => s0
@@ -1217,15 +1644,17 @@ def shiftSeq (s0 : St) (f : Nat → St) : Nat → St
 /-- **Continuation.**  From invocation `j` on, the runs of `p` are runs of `kp` at `(ctx, n')`: in
 invocation `j` from `s0` (the state in which the current operation delivered for the first time),
 afterwards from `rp (seq i)` (the state in which it delivers the replayed outcome). -/
-theorem GoodSeq.cont (g : GoodSeq outc p ctx n seq)
+theorem GoodSeq.cont (g : GoodSeq outc keep p ctx n seq)
     (kp : Prog) (n' : Nat) (j : Nat) (s0 : St) (rp : St → St)
-    (hrun0 : run p ctx n (seq j) = run kp ctx n' s0) (hok0 : StOk s0)
+    (hrun0 : run p ctx n (seq j) = run kp ctx n' s0) (hok0 : SInv s0)
     (hfr0 : Frame ctx n (seq j).tbl s0.tbl) (hfresh : Untouched ctx n' s0.tbl)
+    (hsyn0 : ∀ x, ¬ x <+: ctx → lookup s0.syncTbl x = lookup s0.tbl x)
     (hrest : ∀ i, 1 ≤ i → run p ctx n (seq (j + i)) = run kp ctx n' (rp (seq (j + i))) ∧
-      (rp (seq (j + i))).tbl = (seq (j + i)).tbl ∧ StOk (rp (seq (j + i))))
+      (rp (seq (j + i))).tbl = (seq (j + i)).tbl ∧ (rp (seq (j + i))).syncTbl = (seq (j + i)).syncTbl ∧
+      SInv (rp (seq (j + i))))
     (hcompat : ∀ i, 1 ≤ i → Compat kp ctx n' (seq (j + i)).tbl)
     (hnew : ∀ h, Past h ctx n' → ¬ Past h ctx n → Resolved (shiftSeq s0 (fun i => rp (seq (j + (i + 1))))) h) :
-    GoodSeq outc kp ctx n' (shiftSeq s0 (fun i => rp (seq (j + (i + 1))))) := by
+    GoodSeq outc (fun i => keep (j + i)) kp ctx n' (shiftSeq s0 (fun i => rp (seq (j + (i + 1))))) := by
   have hrun : ∀ i, run p ctx n (seq (j + i)) =
       run kp ctx n' (shiftSeq s0 (fun i => rp (seq (j + (i + 1)))) i) := by
     intro i
@@ -1239,11 +1668,11 @@ theorem GoodSeq.cont (g : GoodSeq outc p ctx n seq)
     | succ i =>
       show Frame ctx n _ (rp (seq (j + (i + 1)))).tbl
       rw [(hrest (i + 1) (by omega)).2.1]; exact Frame.refl _ _ _
-  refine ⟨?_, ?_, ?_, ?_, hfresh, ?_, ?_, ?_⟩
+  refine ⟨?_, ?_, ?_, ?_, hfresh, ?_, ?_, ?_, ?_⟩
   · intro i
     cases i with
     | zero => exact hok0
-    | succ i => exact (hrest (i + 1) (by omega)).2.2
+    | succ i => exact (hrest (i + 1) (by omega)).2.2.2
   · intro i; exact ctxVis_of_frame (htbl i) (g.vis (j + i))
   · intro i; exact ctxOk_of_frame (htbl i) (g.par (j + i))
   · intro h hh
@@ -1265,68 +1694,81 @@ theorem GoodSeq.cont (g : GoodSeq outc p ctx n seq)
       rw [(hrest (i + 1) (by omega)).2.1]; exact hcompat (i + 1) (by omega)
   · intro i
     rw [← hrun i]; exact g.susp (j + i)
-  · intro i
-    show (rp (seq (j + (i + 1)))).tbl = _
+  · intro i x hx
+    cases i with
+    | zero => exact hsyn0 x hx
+    | succ i =>
+      show lookup (rp (seq (j + (i + 1)))).syncTbl x = lookup (rp (seq (j + (i + 1)))).tbl x
+      rw [(hrest (i + 1) (by omega)).2.1, (hrest (i + 1) (by omega)).2.2.1]
+      exact g.syn _ x hx
+  · intro i x hx
+    show lookup (rp (seq (j + (i + 1)))).tbl x = _
     rw [(hrest (i + 1) (by omega)).2.1, ← hrun i]
-    exact g.next (j + i)
+    exact g.next (j + i) x hx
 
 /-- **Continuation after the current operation has a record on which it delivers at once.**
-`r0` is the record in the state `s0` in which the operation delivered first; the environment makes
-it `fireRec _ r0`, terminal, and later invocations find that record.  `TP` is an additional
-property of the table on which the replay may depend. -/
-theorem GoodSeq.phase2 (g : GoodSeq outc p ctx n seq)
+`r0` is the record in the state `s0` in which the operation delivered first (terminal, or a parking
+record: it was written synchronously); the environment makes it `fireRec _ r0`, terminal, and later
+invocations find that record.  `TP` is an additional property of the tables, preserved by accepted
+updates, on which the replay may depend. -/
+theorem GoodSeq.phase2 (g : GoodSeq outc keep p ctx n seq)
     (kp : Prog) (j : Nat) (s0 : St) (rp : St → St) (r0 : OpRec)
-    (hrun0 : run p ctx n (seq j) = run kp ctx (n + 1) s0) (hok0 : StOk s0)
+    (hrun0 : run p ctx n (seq j) = run kp ctx (n + 1) s0) (hok0 : SInv s0)
     (hfr0 : Frame ctx n (seq j).tbl s0.tbl) (hfresh : Untouched ctx (n + 1) s0.tbl)
+    (hsyn0 : ∀ x, ¬ x <+: ctx → lookup s0.syncTbl x = lookup s0.tbl x)
     (hrec0 : lookup s0.tbl (ctx ++ [n + 1]) = some r0)
+    (hkeep0 : r0.status.terminal = true ∨ Parked r0 = true)
     (hterm : (fireRec (outc (ctx ++ [n + 1])) r0).status.terminal = true)
     (hcb : cbOut r0 = none ∨ r0 = fireRec (outc (ctx ++ [n + 1])) r0)
-    (TP : Tbl → Prop) (hTP0 : TP s0.tbl)
-    (hTPnext : ∀ t T, TP t → Mono t T → CtxVis (fireAll outc T) ctx →
-      lookup (Exec.visible (fireAll outc T)) (ctx ++ [n + 1]) = some (fireRec (outc (ctx ++ [n + 1])) r0) →
-      TP (Exec.visible (fireAll outc T)))
-    (hrp : ∀ s, lookup s.tbl (ctx ++ [n + 1]) = some (fireRec (outc (ctx ++ [n + 1])) r0) → TP s.tbl →
-      run p ctx n s = run kp ctx (n + 1) (rp s) ∧ (rp s).tbl = s.tbl ∧ (StOk s → StOk (rp s)))
+    (TP : Tbl → Prop) (hTPA : ∀ t u imm t', Backend.apply t u imm = some t' → TP t → TP t')
+    (hTP0 : TP s0.tbl ∧ TP s0.syncTbl)
+    (hTPnext : ∀ K t', TP K → CtxVis (fireAll outc K) ctx →
+      lookup (fireAll outc K) (ctx ++ [n + 1]) = some (fireRec (outc (ctx ++ [n + 1])) r0) →
+      (∀ x, ¬ x <+: ctx → lookup t' x = lookup (Exec.visible (fireAll outc K)) x) → TP t')
+    (hTPcongr : ∀ t t', (∀ x, ¬ x <+: ctx → lookup t' x = lookup t x) → TP t → TP t')
+    (hrp : ∀ s, SInv s → lookup s.tbl (ctx ++ [n + 1]) = some (fireRec (outc (ctx ++ [n + 1])) r0) → TP s.tbl →
+      run p ctx n s = run kp ctx (n + 1) (rp s) ∧ (rp s).tbl = s.tbl ∧ (rp s).syncTbl = s.syncTbl ∧ SInv (rp s))
     (hinv : ∀ t, Compat p ctx n t → lookup t (ctx ++ [n + 1]) = some (fireRec (outc (ctx ++ [n + 1])) r0) →
       TP t → Compat kp ctx (n + 1) t) :
-    GoodSeq outc kp ctx (n + 1) (shiftSeq s0 (fun i => rp (seq (j + (i + 1))))) := by
+    GoodSeq outc (fun i => keep (j + i)) kp ctx (n + 1) (shiftSeq s0 (fun i => rp (seq (j + (i + 1))))) := by
   have hq : ¬ InRegion ctx (n + 1) (ctx ++ [n + 1]) := not_inRegion_self_succ ctx n
   have hfix : fireRec (outc (ctx ++ [n + 1])) (fireRec (outc (ctx ++ [n + 1])) r0) =
       fireRec (outc (ctx ++ [n + 1])) r0 := fireRec_terminal hterm
+  -- one round of the continuation, started in `c` whose record at the position is `r`
+  have hround : ∀ (r : Nat) (c : St) (rc : OpRec), run p ctx n (seq r) = run kp ctx (n + 1) c →
+      lookup c.tbl (ctx ++ [n + 1]) = some rc → (rc.status.terminal = true ∨ Parked rc = true) →
+      fireRec (outc (ctx ++ [n + 1])) rc = fireRec (outc (ctx ++ [n + 1])) r0 →
+      TP c.tbl ∧ TP c.syncTbl →
+      lookup (seq (r + 1)).tbl (ctx ++ [n + 1]) = some (fireRec (outc (ctx ++ [n + 1])) r0) ∧
+        TP (seq (r + 1)).tbl := by
+    intro r c rc hrun hl hk hf htp
+    have hlf : lookup (run p ctx n (seq r)).2.tbl (ctx ++ [n + 1]) = some rc := by
+      rw [hrun, run_frame kp ctx (n + 1) c _ hq, hl]
+    have hnext : lookup (seq (r + 1)).tbl (ctx ++ [n + 1]) = some (fireRec (outc (ctx ++ [n + 1])) r0) := by
+      rw [g.next_child_of r (n + 1) hlf hk, hf]
+    refine ⟨hnext, ?_⟩
+    have hmv := EngineExec.run_mv kp ctx (n + 1) c
+    have hK : TP (kept (run p ctx n (seq r)).2 (keep r)) := by
+      rw [hrun]
+      exact applyPrefix_stable' hTPA _ _ _ _ (mv_stable' hTPA hmv htp).2
+    refine hTPnext _ _ hK (g.vis_next r) ?_ (g.next r)
+    rw [lookup_fireAll, kept_keeps (g.fin r).wal _ hlf hk, ← hf]; rfl
   have hpers : ∀ i, lookup (seq (j + (i + 1))).tbl (ctx ++ [n + 1]) =
       some (fireRec (outc (ctx ++ [n + 1])) r0) ∧ TP (seq (j + (i + 1))).tbl := by
     intro i
     induction i with
-    | zero =>
-      have hl : lookup (seq (j + 1)).tbl (ctx ++ [n + 1]) = some (fireRec (outc (ctx ++ [n + 1])) r0) := by
-        rw [g.next_child j (n + 1), hrun0, run_frame kp ctx (n + 1) s0 _ hq, hrec0]; rfl
-      refine ⟨hl, ?_⟩
-      have hv := g.vis_next j
-      rw [g.next j] at hl ⊢
-      rw [hrun0] at hl hv ⊢
-      exact hTPnext _ _ hTP0 (run_mono kp ctx (n + 1) s0) hv hl
+    | zero => exact hround j s0 r0 hrun0 hrec0 hkeep0 rfl hTP0
     | succ i ih =>
       obtain ⟨hl, htp⟩ := ih
-      obtain ⟨h1, h2, _⟩ := hrp _ hl htp
-      have hl' : lookup (seq (j + (i + 1) + 1)).tbl (ctx ++ [n + 1]) =
-          some (fireRec (outc (ctx ++ [n + 1])) r0) := by
-        rw [g.next_child (j + (i + 1)) (n + 1), h1, run_frame kp ctx (n + 1) _ _ hq, h2, hl]
-        show some (fireRec _ _) = _
-        rw [hfix]
-      refine ⟨hl', ?_⟩
-      have hv := g.vis_next (j + (i + 1))
-      have hm := run_mono kp ctx (n + 1) (rp (seq (j + (i + 1))))
-      rw [h2] at hm
-      show TP (seq (j + (i + 1) + 1)).tbl
-      rw [g.next (j + (i + 1))] at hl' ⊢
-      rw [h1] at hl' hv ⊢
-      exact hTPnext _ _ htp hm hv hl'
-  refine g.cont kp (n + 1) j s0 rp hrun0 hok0 hfr0 hfresh ?_ ?_ ?_
+      obtain ⟨h1, h2, h3, _⟩ := hrp _ (g.ok _) hl htp
+      have htps : TP (seq (j + (i + 1))).syncTbl := hTPcongr _ _ (g.syn _) htp
+      exact hround (j + (i + 1)) (rp (seq (j + (i + 1)))) _ h1 (by rw [h2]; exact hl) (Or.inl hterm) hfix
+        ⟨by rw [h2]; exact htp, by rw [h3]; exact htps⟩
+  refine g.cont kp (n + 1) j s0 rp hrun0 hok0 hfr0 hfresh hsyn0 ?_ ?_ ?_
   · intro i hi
     obtain ⟨i', rfl⟩ : ∃ i', i = i' + 1 := ⟨i - 1, by omega⟩
     obtain ⟨hl, htp⟩ := hpers i'
-    obtain ⟨h1, h2, h3⟩ := hrp _ hl htp
-    exact ⟨h1, h2, h3 (g.ok _)⟩
+    exact hrp _ (g.ok _) hl htp
   · intro i hi
     obtain ⟨i', rfl⟩ : ∃ i', i = i' + 1 := ⟨i - 1, by omega⟩
     obtain ⟨hl, htp⟩ := hpers i'
@@ -1338,7 +1780,7 @@ theorem GoodSeq.phase2 (g : GoodSeq outc p ctx n seq)
       obtain ⟨i', rfl⟩ : ∃ i', i = i' + 1 := ⟨i - 1, by omega⟩
       obtain ⟨hl, htp⟩ := hpers i'
       show lookup (rp (seq (j + (i' + 1)))).tbl _ = _
-      rw [(hrp _ hl htp).2.1]; exact hl
+      rw [(hrp _ (g.ok _) hl htp).2.1]; exact hl
 
 /-- A fragment whose first operation is handled by `hd` at `ctx ++ [n + 1]`. -/
 def runVia (hd : St → HRes) (k : Outcome → Prog) (ctx : Pos) (n : Nat) (s : St) : End × St :=
@@ -1357,11 +1799,12 @@ theorem runVia_stop {hd : St → HRes} {k : Outcome → Prog} {s s' : St} {e : E
 /-- Once the first operation has delivered in invocation `j`, leaving the terminal record `r'` on
 which later visits deliver `o'` at once, the continuation `k o'` takes over. -/
 theorem live_after_deliver {k : Outcome → Prog} {hd : St → HRes}
-    (g : GoodSeq outc p ctx n seq)
+    (g : GoodSeq outc keep p ctx n seq)
     (hrun : ∀ s, run p ctx n s = runVia hd k ctx n s)
     (honly : ∀ s, OnlyAt (ctx ++ [n + 1]) s (hd s).st)
-    (hfrm : ∀ s, EngineRun.Frame (ctx ++ [n + 1]) s (hd s).st)
+    (hsinv : ∀ s, SInv s → SInv (hd s).st)
     {j : Nat} {o : Outcome} {s0 : St} (hj : hd (seq j) = .deliver o s0)
+    (hsyn0 : ∀ x, ¬ x <+: ctx → lookup s0.syncTbl x = lookup s0.tbl x)
     {r' : OpRec} {o' : Outcome} (hterm : r'.status.terminal = true)
     (hrec : lookup s0.tbl (ctx ++ [n + 1]) = some r') (hko : k o = k o')
     (hdone : ∀ s, lookup s.tbl (ctx ++ [n + 1]) = some r' → hd s = deliverAt s (ctx ++ [n + 1]) o')
@@ -1372,33 +1815,36 @@ theorem live_after_deliver {k : Outcome → Prog} {hd : St → HRes}
   have hfix : fireRec (outc (ctx ++ [n + 1])) r' = r' := fireRec_terminal hterm
   have g' := g.phase2 (k o') j s0 (fun s => (deliverAt s (ctx ++ [n + 1]) o').st) r'
     (by rw [hrun, runVia_deliver hj, hko])
-    (by rw [← hst]; exact (g.ok j).of_frame (hfrm _))
+    (by rw [← hst]; exact hsinv _ (g.ok j))
     (by rw [← hst]; exact frame_of_onlyAt (honly _))
     (by rw [← hst]; exact untouched_of_onlyAt hfresh (honly _))
-    hrec (by rw [hfix]; exact hterm) (Or.inr hfix.symm)
-    (fun _ => True) trivial (fun _ _ _ _ _ _ => trivial)
+    hsyn0 hrec (Or.inl hterm) (by rw [hfix]; exact hterm) (Or.inr hfix.symm)
+    (fun _ => True) (fun _ _ _ _ _ _ => trivial) ⟨trivial, trivial⟩ (fun _ _ _ _ _ _ => trivial)
+    (fun _ _ _ _ => trivial)
     (by
-      intro s hl _
+      intro s hs hl _
       rw [hfix] at hl
-      refine ⟨?_, EngineH.deliverAt_st_tbl _ _ _, fun h => stOk_deliverAt h _ _⟩
+      refine ⟨?_, EngineH.deliverAt_st_tbl _ _ _, deliverAt_st_syncTbl _ _ _,
+        sinv_deliverAt hs _ _ ⟨r', hl, hterm⟩⟩
       rw [hrun, runVia_deliver ((hdone s hl).trans (deliverAt_st _ _ _))])
     (by intro t hc hl _; rw [hfix] at hl; exact hinv t hc hl)
-  exact ih ctx (n + 1) _ hb hsc g'
+  exact ih ctx (n + 1) _ _ hb hsc g'
 
 /-- **Retrying operations** (step, wait-for-condition): every invocation that visits the operation
-either completes it or leaves it PENDING with one more attempt; the environment makes it READY; the
-attempts are bounded by `M`. -/
+either completes it or leaves it PENDING (written synchronously, so never lost) with one more
+attempt; the environment makes it READY; the attempts are bounded by `M`. -/
 theorem live_retry_op {k : Outcome → Prog} {hd : St → HRes} (kd : Kind) (hkd : kd = .step ∨ kd = .wfc) (M : Nat)
-    (g : GoodSeq outc p ctx n seq)
+    (g : GoodSeq outc keep p ctx n seq)
     (hrun : ∀ s, run p ctx n s = runVia hd k ctx n s)
     (honly : ∀ s, OnlyAt (ctx ++ [n + 1]) s (hd s).st)
-    (hfrm : ∀ s, EngineRun.Frame (ctx ++ [n + 1]) s (hd s).st)
+    (hsinv : ∀ s, SInv s → SInv (hd s).st)
     (hvisit : ∀ s a, StOk s → Backend.parentOk s.tbl (ctx ++ [n + 1]) = true →
       ((lookup s.tbl (ctx ++ [n + 1]) = none ∧ a = 0) ∨
         ∃ rt, lookup s.tbl (ctx ++ [n + 1]) = some rt ∧ rt.kind = kd ∧
           (rt.status = .started ∨ rt.status = .ready) ∧ a = rt.attempt) →
       match hd s with
-      | .deliver o s' => ∃ r', lookup s'.tbl (ctx ++ [n + 1]) = some r' ∧ Done r' = true ∧ k o = k (outcomeOf r')
+      | .deliver o s' => ∃ r', lookup s'.tbl (ctx ++ [n + 1]) = some r' ∧ Done r' = true ∧
+          k o = k (outcomeOf r') ∧ Synced s'
       | .stop e s' => e = .crashed ∨ ∃ d r', e = .suspended d ∧ lookup s'.tbl (ctx ++ [n + 1]) = some r' ∧
           r'.kind = kd ∧ r'.status = .pending ∧ r'.attempt = a + 1 ∧ a + 1 < M)
     (hdone : ∀ s r, lookup s.tbl (ctx ++ [n + 1]) = some r → Done r = true →
@@ -1418,29 +1864,29 @@ theorem live_retry_op {k : Outcome → Prog} {hd : St → HRes} (kd : Kind) (hkd
     | succ i ihi =>
       intro hno
       obtain ⟨hu, hrec⟩ := ihi (fun i' hi' => hno i' (by omega))
-      have hv := hvisit (seq i) i (g.ok i) (parentOk_of_ctxOk (g.par i) (n + 1)) hrec
+      have hv := hvisit (seq i) i (g.ok i).ok (parentOk_of_ctxOk (g.par i) (n + 1)) hrec
       cases hh : hd (seq i) with
       | deliver o s' => exact absurd ⟨o, s', hh⟩ (hno i (by omega))
       | stop e s' =>
         rw [hh] at hv
         have hst : (hd (seq i)).st = s' := by rw [hh]; rfl
+        have hfin : (run p ctx n (seq i)).2 = s' := by rw [hrun, runVia_stop hh]
         obtain ⟨d, hd'⟩ := g.susp i
         rw [hrun, runVia_stop hh] at hd'
         rcases hv with hv | ⟨d', r', he, hl', hk', hs', hat', _⟩
         · rw [hv] at hd'; cases hd'
         · constructor
-          · rw [g.next i, hrun, runVia_stop hh]
-            exact untouched_next outc (by rw [← hst]; exact untouched_of_onlyAt hu (honly _))
+          · refine g.untouched_next_of i ?_
+            rw [hfin, ← hst]; exact untouched_of_onlyAt hu (honly _)
           · refine Or.inr ⟨{ r' with status := .ready }, ?_, hk', Or.inr rfl, hat'.symm⟩
-            rw [g.next_child i (n + 1), hrun, runVia_stop hh, hl']
-            show some (fireRec _ r') = _
-            rw [fireRec_pending (by rw [hk']; exact hkd) hs']
+            rw [g.next_child_of i (n + 1) (by rw [hfin]; exact hl') (Or.inr (by simp [Parked, hs'])),
+              fireRec_pending (by rw [hk']; exact hkd) hs']
   have hex : ∃ i, ∃ o s', hd (seq i) = .deliver o s' := by
     apply Classical.byContradiction
     intro hne
     have hno : ∀ i, ¬ ∃ o s', hd (seq i) = .deliver o s' := fun i hi => hne ⟨i, hi⟩
     obtain ⟨_, hrec⟩ := hA M (fun i' _ => hno i')
-    have hv := hvisit (seq M) M (g.ok M) (parentOk_of_ctxOk (g.par M) (n + 1)) hrec
+    have hv := hvisit (seq M) M (g.ok M).ok (parentOk_of_ctxOk (g.par M) (n + 1)) hrec
     cases hh : hd (seq M) with
     | deliver o s' => exact hno M ⟨o, s', hh⟩
     | stop e s' =>
@@ -1452,19 +1898,20 @@ theorem live_retry_op {k : Outcome → Prog} {hd : St → HRes} (kd : Kind) (hkd
       · omega
   obtain ⟨j, ⟨o, s0, hj⟩, hmin⟩ := exists_least hex
   obtain ⟨hu, hrec⟩ := hA j hmin
-  have hv := hvisit (seq j) j (g.ok j) (parentOk_of_ctxOk (g.par j) (n + 1)) hrec
+  have hv := hvisit (seq j) j (g.ok j).ok (parentOk_of_ctxOk (g.par j) (n + 1)) hrec
   rw [hj] at hv
-  obtain ⟨r', hl', hd', hko⟩ := hv
-  exact live_after_deliver g hrun honly hfrm hj (done_terminal hd') hl' hko
+  obtain ⟨r', hl', hd', hko, hsy⟩ := hv
+  exact live_after_deliver g hrun honly hsinv hj (fun x _ => syn_of_synced hsy x) (done_terminal hd') hl' hko
     (fun s hl => hdone s r' hl hd') hu (fun t hc hl => hinv t r' hc hl hd') (ih _) (hb _) (hsc _)
 
 /-- **One-shot operations** (wait, chained invoke): the first visit registers the timer / the
-external call and suspends; the environment completes it; the next visit delivers. -/
+external call synchronously and suspends; the environment completes it; the next visit delivers. -/
 theorem live_oneshot {k : Outcome → Prog} {hd : St → HRes} (out : OpRec → Option Outcome) (r0 : OpRec)
-    (g : GoodSeq outc p ctx n seq)
+    (hpk : Parked r0 = true)
+    (g : GoodSeq outc keep p ctx n seq)
     (hrun : ∀ s, run p ctx n s = runVia hd k ctx n s)
     (honly : ∀ s, OnlyAt (ctx ++ [n + 1]) s (hd s).st)
-    (hfrm : ∀ s, EngineRun.Frame (ctx ++ [n + 1]) s (hd s).st)
+    (hsinv : ∀ s, SInv s → SInv (hd s).st)
     (hvisit : ∀ s, StOk s → Backend.parentOk s.tbl (ctx ++ [n + 1]) = true →
       lookup s.tbl (ctx ++ [n + 1]) = none →
       (∃ s', hd s = .stop .crashed s') ∨
@@ -1478,21 +1925,24 @@ theorem live_oneshot {k : Outcome → Prog} {hd : St → HRes} (out : OpRec → 
     (ih : ∀ o, LiveAt outc (k o)) (hb : ∀ o, Bounded (k o)) (hsc : ∀ o, LScoped (k o) ctx (n + 1)) :
     False := by
   obtain ⟨d, hd'⟩ := g.susp 0
-  rcases hvisit (seq 0) (g.ok 0) (parentOk_of_ctxOk (g.par 0) (n + 1)) g.fresh.self with
+  rcases hvisit (seq 0) (g.ok 0).ok (parentOk_of_ctxOk (g.par 0) (n + 1)) g.fresh.self with
     ⟨s', hh⟩ | ⟨e, s', hh, hl'⟩
   · rw [hrun, runVia_stop hh] at hd'; cases hd'
   · have hst : (hd (seq 0)).st = s' := by rw [hh]; rfl
+    have hfin : (run p ctx n (seq 0)).2 = s' := by rw [hrun, runVia_stop hh]
     cases ho : out (fireRec (outc (ctx ++ [n + 1])) r0) with
     | none => rw [ho] at hout; cases hout
     | some os =>
-      have hl1 : lookup (seq 1).tbl (ctx ++ [n + 1]) = some (fireRec (outc (ctx ++ [n + 1])) r0) := by
-        rw [g.next_child 0 (n + 1), hrun, runVia_stop hh, hl']; rfl
+      have hl1 : lookup (seq 1).tbl (ctx ++ [n + 1]) = some (fireRec (outc (ctx ++ [n + 1])) r0) :=
+        g.next_child_of 0 (n + 1) (by rw [hfin]; exact hl') (Or.inr hpk)
       have hu1 : Untouched ctx (n + 1) (seq 1).tbl := by
-        rw [g.next 0, hrun, runVia_stop hh]
-        exact untouched_next outc (by rw [← hst]; exact untouched_of_onlyAt g.fresh.succ (honly _))
+        refine g.untouched_next_of 0 ?_
+        rw [hfin, ← hst]; exact untouched_of_onlyAt g.fresh.succ (honly _)
       have hj : hd (seq 1) = .deliver os (deliverAt (seq 1) (ctx ++ [n + 1]) os).st :=
         (hdone _ _ _ hl1 ho).trans (deliverAt_st _ _ _)
-      exact live_after_deliver g hrun honly hfrm hj (hterm _ (by rw [ho]; rfl))
+      exact live_after_deliver g hrun honly hsinv hj
+        (fun x hx => by rw [deliverAt_st_syncTbl, EngineH.deliverAt_st_tbl]; exact g.syn 1 x hx)
+        (hterm _ (by rw [ho]; rfl))
         (by rw [EngineH.deliverAt_st_tbl]; exact hl1) rfl
         (fun s hl => hdone s _ _ hl ho) hu1 (fun t hc hl => hinv t _ _ hc hl ho) (ih _) (hb _) (hsc _)
 
@@ -1500,53 +1950,103 @@ end seqs
 
 /-! ## The induction on programs -/
 
+theorem handleCbRes_syncTbl (s : St) (hd : Pos) : (handleCbRes s hd).st.syncTbl = s.syncTbl := by
+  unfold handleCbRes
+  dsimp only
+  repeat' split
+  all_goals rfl
+
+theorem compat_child_absent_inv {c : ChildSpec} {body : Prog} {k : Outcome → Prog} {ctx : Pos} {n : Nat} {t : Tbl}
+    (h : Compat (.child c body k) ctx n t) (hl : lookup t (ctx ++ [n + 1]) = none) : Untouched ctx n t := by
+  cases h with
+  | fresh hu => exact hu
+  | childActive hl' _ _ _ _ => rw [hl] at hl'; cases hl'
+  | childDone hl' _ _ _ => rw [hl] at hl'; cases hl'
+  | childReplay hl' _ _ _ _ => rw [hl] at hl'; cases hl'
+
+theorem compat_child_active_inv {c : ChildSpec} {body : Prog} {k : Outcome → Prog} {ctx : Pos} {n : Nat} {t : Tbl}
+    {r : OpRec} (h : Compat (.child c body k) ctx n t) (hl : lookup t (ctx ++ [n + 1]) = some r)
+    (hnt : r.status.terminal = false) : r.kind = .context ∧ r.status = .started := by
+  cases h with
+  | fresh hu => rw [hu.self] at hl; cases hl
+  | childActive hl' hk hs _ _ => rw [hl] at hl'; cases hl'; exact ⟨hk, hs⟩
+  | childDone hl' hd _ _ =>
+    rw [hl] at hl'; cases hl'
+    rw [done_terminal hd] at hnt; cases hnt
+  | childReplay hl' hs _ _ _ =>
+    rw [hl] at hl'; cases hl'
+    rw [hs] at hnt; cases hnt
+
+/-- A complete traversal only depends on the records off the chain of enclosing contexts. -/
+theorem _root_.EngineCompat.Returns.congr_off {p : Prog} {ctx : Pos} {n : Nat} {t t' : Tbl} {v : Val} (c0 : Pos)
+    (h : Returns p ctx n t v) (hc : c0 <+: ctx)
+    (he : ∀ x, ¬ x <+: c0 → lookup t' x = lookup t x) : Returns p ctx n t' v := by
+  have hchild : ∀ (ctx : Pos) (m : Nat), c0 <+: ctx → ¬ (ctx ++ [m]) <+: c0 := by
+    intro ctx m hc hp
+    exact not_prefix_child ctx m (hp.trans hc)
+  have hpast : ∀ {h ctx : Pos} {n : Nat}, c0 <+: ctx → Past h ctx n → ¬ h <+: c0 :=
+    fun hc hp hpre => not_prefix_past hp (hpre.trans hc)
+  induction h with
+  | ret => exact .ret
+  | log _ ih => exact .log (ih hc he)
+  | step hl hd _ ih => exact .step (by rw [he _ (hchild _ _ hc)]; exact hl) hd (ih hc he)
+  | wait hl hs _ ih => exact .wait (by rw [he _ (hchild _ _ hc)]; exact hl) hs (ih hc he)
+  | cbNew hl _ ih => exact .cbNew (by rw [he _ (hchild _ _ hc)]; exact hl) (ih hc he)
+  | cbRes hp hl ho _ ih => exact .cbRes hp (by rw [he _ (hpast hc hp)]; exact hl) ho (ih hc he)
+  | invoke hl ho _ ih => exact .invoke (by rw [he _ (hchild _ _ hc)]; exact hl) ho (ih hc he)
+  | wfc hl hd _ ih => exact .wfc (by rw [he _ (hchild _ _ hc)]; exact hl) hd (ih hc he)
+  | childDone hl hd hr _ ih => exact .childDone (by rw [he _ (hchild _ _ hc)]; exact hl) hd hr (ih hc he)
+  | childReplay hl hs hr _ _ ih1 ih2 =>
+    exact .childReplay (by rw [he _ (hchild _ _ hc)]; exact hl) hs hr
+      (ih1 (hc.trans (List.prefix_append _ _)) he) (ih2 hc he)
+
 section cases
 variable {outc : Pos → Backend.Immediate}
 
 theorem live_ret (v : Val) : LiveAt outc (.ret v) := by
-  intro ctx n seq _ _ g
+  intro ctx n keep seq _ _ g
   obtain ⟨d, hd⟩ := g.susp 0
   simp [run] at hd
 
 theorem live_raise (e : Exc) : LiveAt outc (.raise e) := by
-  intro ctx n seq _ _ g
+  intro ctx n keep seq _ _ g
   obtain ⟨d, hd⟩ := g.susp 0
   simp [run] at hd
 
 theorem live_log {m : String} {k : Prog} (ih : LiveAt outc k) : LiveAt outc (.log m k) := by
-  intro ctx n seq hb hsc g
+  intro ctx n keep seq hb hsc g
   cases hb with | log hb =>
   cases hsc with | log hsc =>
   have hrun : ∀ s, run (.log m k) ctx n s = run k ctx n (doLog s ctx m) := fun s => by simp only [run]
-  exact ih ctx n _ hb hsc
-    (g.cont k n 0 (doLog (seq 0) ctx m) (fun s => doLog s ctx m) (hrun _) ((g.ok 0).of_same rfl rfl)
-      (Frame.refl _ _ _) g.fresh (fun i _ => ⟨hrun _, rfl, (g.ok _).of_same rfl rfl⟩)
+  exact ih ctx n _ _ hb hsc
+    (g.cont k n 0 (doLog (seq 0) ctx m) (fun s => doLog s ctx m) (hrun _) (sinv_doLog (g.ok 0) _ _)
+      (Frame.refl _ _ _) g.fresh (g.syn 0) (fun i _ => ⟨hrun _, rfl, rfl, sinv_doLog (g.ok _) _ _⟩)
       (fun i _ => compat_log_inv (g.compat _)) (fun h hh hn => absurd hh hn))
 
 theorem live_step {sp : StepSpec} {k : Outcome → Prog} (ih : ∀ o, LiveAt outc (k o)) :
     LiveAt outc (.step sp k) := by
-  intro ctx n seq hb hsc g
+  intro ctx n keep seq hb hsc g
   cases hb with | step hM hb =>
   cases hsc with | step hsc heq =>
   obtain ⟨M, hM⟩ := hM
   refine live_retry_op (hd := fun s => handleStep s (ctx ++ [n + 1]) sp) .step (Or.inl rfl) (M + 1) g
     (fun s => by simp only [run, runVia]; cases handleStep s (ctx ++ [n + 1]) sp <;> rfl)
     (fun s => onlyAt_handleStep s _ sp)
-    (fun s => EngineRun.frame_handleStep (EngineRun.Frame.refl _ s)) ?_
+    (fun s hs => sinv_handleStep hs _ sp) ?_
     (fun s r hl hd => EngineH.handleStep_done sp hl hd) (fun t r hc hl hd => compat_step_inv hc hl hd) ih hb hsc
   intro s a hok hp hl
   have hv := handleStep_visit sp a hok hp hl
   cases hh : handleStep s (ctx ++ [n + 1]) sp with
   | deliver o s' =>
     rw [hh] at hv
-    obtain ⟨r', hl', hd', hdel⟩ := hv
-    refine ⟨r', hl', hd', ?_⟩
+    obtain ⟨r', hl', hd', hdel, hsy⟩ := hv
+    refine ⟨r', hl', hd', ?_, hsy⟩
     rcases hdel with rfl | ⟨e, hinv, hprov, rfl, hcan⟩
     · rfl
     · rw [hcan]; exact heq e hinv hprov
   | stop e s' =>
     rw [hh] at hv
-    rcases hv with hv | ⟨d, r', ex, he, hl', hk', hs', hat', hstr⟩
+    rcases hv with hv | ⟨d, r', ex, he, hl', hk', hs', hat', hstr, _⟩
     · exact Or.inl hv
     · refine Or.inr ⟨d, r', he, hl', hk', hs', hat', ?_⟩
       apply Classical.byContradiction
@@ -1556,28 +2056,28 @@ theorem live_step {sp : StepSpec} {k : Outcome → Prog} (ih : ∀ o, LiveAt out
 
 theorem live_wfc {w : WfcSpec} {k : Outcome → Prog} (ih : ∀ o, LiveAt outc (k o)) :
     LiveAt outc (.wfc w k) := by
-  intro ctx n seq hb hsc g
+  intro ctx n keep seq hb hsc g
   cases hb with | wfc hM hb =>
   cases hsc with | wfc hsc heq =>
   obtain ⟨M, hM⟩ := hM
   refine live_retry_op (hd := fun s => handleWfc s (ctx ++ [n + 1]) w) .wfc (Or.inr rfl) (M + 1) g
     (fun s => by simp only [run, runVia]; cases handleWfc s (ctx ++ [n + 1]) w <;> rfl)
     (fun s => onlyAt_handleWfc s _ w)
-    (fun s => EngineRun.frame_handleWfc (EngineRun.Frame.refl _ s)) ?_
+    (fun s hs => sinv_handleWfc hs _ w) ?_
     (fun s r hl hd => EngineH.handleWfc_done w hl hd) (fun t r hc hl hd => compat_wfc_inv hc hl hd) ih hb hsc
   intro s a hok hp hl
   have hv := handleWfc_visit w a hok hp hl
   cases hh : handleWfc s (ctx ++ [n + 1]) w with
   | deliver o s' =>
     rw [hh] at hv
-    obtain ⟨r', hl', hd', hdel⟩ := hv
-    refine ⟨r', hl', hd', ?_⟩
+    obtain ⟨r', hl', hd', hdel, hsy⟩ := hv
+    refine ⟨r', hl', hd', ?_, hsy⟩
     rcases hdel with rfl | ⟨e, st, a', hck, rfl, hcan⟩
     · rfl
     · rw [hcan]; exact heq e st a' hck
   | stop e s' =>
     rw [hh] at hv
-    rcases hv with hv | ⟨d, r', v, he, hl', hk', hs', hat', hstr⟩
+    rcases hv with hv | ⟨d, r', v, he, hl', hk', hs', hat', hstr, _⟩
     · exact Or.inl hv
     · refine Or.inr ⟨d, r', he, hl', hk', hs', hat', ?_⟩
       apply Classical.byContradiction
@@ -1586,17 +2086,17 @@ theorem live_wfc {w : WfcSpec} {k : Outcome → Prog} (ih : ∀ o, LiveAt outc (
       cases hstr
 
 theorem live_wait {secs : Nat} {k : Prog} (ih : LiveAt outc k) : LiveAt outc (.wait secs k) := by
-  intro ctx n seq hb hsc g
+  intro ctx n keep seq hb hsc g
   cases hb with | wait hb =>
   cases hsc with | wait hsc =>
   refine live_oneshot (k := fun _ => k) (hd := fun s => handleWait s (ctx ++ [n + 1]) secs)
     (fun r => if r.status = .succeeded then some (.ok noneVal) else none) { kind := .wait, status := .started }
-    g (fun s => by simp only [run, runVia]; cases handleWait s (ctx ++ [n + 1]) secs <;> rfl)
+    rfl g (fun s => by simp only [run, runVia]; cases handleWait s (ctx ++ [n + 1]) secs <;> rfl)
     (fun s => onlyAt_handleWait s _ secs)
-    (fun s => EngineRun.frame_handleWait (EngineRun.Frame.refl _ s)) ?_ rfl ?_ ?_ ?_
+    (fun s hs => sinv_handleWait hs _ secs) ?_ rfl ?_ ?_ ?_
     (fun _ => ih) (fun _ => hb) (fun _ => hsc)
   · intro s hok hp hl
-    rcases handleWait_visit secs hok hp hl with ⟨s', h⟩ | ⟨s', h, hl'⟩
+    rcases handleWait_visit secs hok hp hl with ⟨s', h⟩ | ⟨s', h, hl', _⟩
     · exact Or.inl ⟨s', h⟩
     · exact Or.inr ⟨_, s', h, hl'⟩
   · intro r hr
@@ -1616,17 +2116,17 @@ theorem live_wait {secs : Nat} {k : Prog} (ih : LiveAt outc k) : LiveAt outc (.w
 
 theorem live_invoke (hout : ∀ q, outc q ≠ .none) {pl : Val} {k : Outcome → Prog}
     (ih : ∀ o, LiveAt outc (k o)) : LiveAt outc (.invoke pl k) := by
-  intro ctx n seq hb hsc g
+  intro ctx n keep seq hb hsc g
   cases hb with | invoke hb =>
   cases hsc with | invoke hsc =>
   refine live_oneshot (hd := fun s => handleInvoke s (ctx ++ [n + 1]) pl) invOut
-    { kind := .invoke, status := .started }
+    { kind := .invoke, status := .started } rfl
     g (fun s => by simp only [run, runVia]; cases handleInvoke s (ctx ++ [n + 1]) pl <;> rfl)
     (fun s => onlyAt_handleInvoke s _ pl)
-    (fun s => EngineRun.frame_handleInvoke (EngineRun.Frame.refl _ s)) ?_ (invOut_finish (hout _)) ?_ ?_
+    (fun s hs => sinv_handleInvoke hs _ pl) ?_ (invOut_finish (hout _)) ?_ ?_
     (fun t r o hc hl ho => compat_invoke_inv hc hl ho) ih hb hsc
   · intro s hok hp hl
-    rcases handleInvoke_visit pl hok hp hl with ⟨s', h⟩ | ⟨s', h, hl'⟩
+    rcases handleInvoke_visit pl hok hp hl with ⟨s', h⟩ | ⟨s', h, hl', _⟩
     · exact Or.inl ⟨s', h⟩
     · exact Or.inr ⟨_, s', h, hl'⟩
   · intro r hr
@@ -1638,7 +2138,7 @@ theorem live_invoke (hout : ∀ q, outc q ≠ .none) {pl : Val} {k : Outcome →
 
 theorem live_cbNew (hout : ∀ q, outc q ≠ .none) {k : Handle → Prog} (ih : ∀ h, LiveAt outc (k h)) :
     LiveAt outc (.cbNew k) := by
-  intro ctx n seq hb hsc g
+  intro ctx n keep seq hb hsc g
   cases hb with | cbNew hb =>
   cases hsc with | cbNew hsc =>
   have hrun : ∀ s, run (.cbNew k) ctx n s =
@@ -1647,8 +2147,8 @@ theorem live_cbNew (hout : ∀ q, outc q ≠ .none) {k : Handle → Prog} (ih : 
       | .error (e, s') => (e, s') := fun s => by
     simp only [run]; rcases handleCbNew s (ctx ++ [n + 1]) with ⟨_, _⟩ | _ <;> rfl
   obtain ⟨d, hd⟩ := g.susp 0
-  rcases handleCbNew_visit (g.ok 0) (parentOk_of_ctxOk (g.par 0) (n + 1)) g.fresh.self with
-    ⟨s', hh⟩ | ⟨s0, hh, hl0⟩
+  rcases handleCbNew_visit (g.ok 0).ok (parentOk_of_ctxOk (g.par 0) (n + 1)) g.fresh.self with
+    ⟨s', hh⟩ | ⟨s0, hh, hl0, hsy0⟩
   · rw [hrun, hh] at hd; cases hd
   · have hst : EngineRun.Except.st (handleCbNew (seq 0) (ctx ++ [n + 1])) = s0 := by rw [hh]; rfl
     have hrs : (cbOut (fireRec (outc (ctx ++ [n + 1])) { kind := .callback, status := .started })).isSome = true :=
@@ -1656,22 +2156,24 @@ theorem live_cbNew (hout : ∀ q, outc q ≠ .none) {k : Handle → Prog} (ih : 
     have g' := g.phase2 (k (ctx ++ [n + 1])) 0 s0
       (fun s => EngineRun.Except.st (handleCbNew s (ctx ++ [n + 1]))) { kind := .callback, status := .started }
       (by rw [hrun, hh])
-      (by rw [← hst]; exact (g.ok 0).of_frame (EngineRun.frame_handleCbNew (EngineRun.Frame.refl _ _)))
+      (by rw [← hst]; exact sinv_handleCbNew (g.ok 0) _)
       (by rw [← hst]; exact frame_of_onlyAt (onlyAt_handleCbNew _ _))
       (by rw [← hst]; exact untouched_of_onlyAt g.fresh.succ (onlyAt_handleCbNew _ _))
-      hl0 (cbOut_isSome_terminal hrs) (Or.inl rfl)
-      (fun _ => True) trivial (fun _ _ _ _ _ _ => trivial)
+      (fun x _ => syn_of_synced hsy0 x)
+      hl0 (Or.inr rfl) (cbOut_isSome_terminal hrs) (Or.inl rfl)
+      (fun _ => True) (fun _ _ _ _ _ _ => trivial) ⟨trivial, trivial⟩ (fun _ _ _ _ _ _ => trivial)
+      (fun _ _ _ _ => trivial)
       (by
-        intro s hl _
+        intro s hs hl _
         obtain ⟨s1, h1, hsame⟩ := handleCbNew_some hl
-        refine ⟨by rw [hrun, h1]; simp only [h1]; rfl, by simp only [h1]; exact hsame.tbl, fun h => ?_⟩
-        exact h.of_frame (EngineRun.frame_handleCbNew (EngineRun.Frame.refl _ _)))
+        refine ⟨by rw [hrun, h1]; simp only [h1]; rfl, by simp only [h1]; exact hsame.tbl,
+          by simp only [h1]; exact hsame.syncTbl, sinv_handleCbNew hs _⟩)
       (fun t hc hl _ => compat_cbNew_inv hc hl)
-    exact ih (ctx ++ [n + 1]) ctx (n + 1) _ (hb _) hsc g'
+    exact ih (ctx ++ [n + 1]) ctx (n + 1) _ _ (hb _) hsc g'
 
 theorem live_cbRes {h : Handle} {k : Outcome → Prog} (ih : ∀ o, LiveAt outc (k o)) :
     LiveAt outc (.cbRes h k) := by
-  intro ctx n seq hb hsc g
+  intro ctx n keep seq hb hsc g
   cases hb with | cbRes hb =>
   cases hsc with | cbRes hh hsc =>
   have hrun : ∀ s, run (.cbRes h k) ctx n s =
@@ -1689,13 +2191,16 @@ theorem live_cbRes {h : Handle} {k : Outcome → Prog} (ih : ∀ o, LiveAt outc 
     have key : ∀ j, (∀ i, lookup (seq (j + i)).tbl h = some rs) → Untouched ctx n (seq j).tbl → False := by
       intro j hj hu
       have hdj : ∀ i, run (.cbRes h k) ctx n (seq (j + i)) = run (k os) ctx n ((handleCbRes (seq (j + i)) h).st) ∧
-          (handleCbRes (seq (j + i)) h).st.tbl = (seq (j + i)).tbl ∧ StOk (handleCbRes (seq (j + i)) h).st := by
+          (handleCbRes (seq (j + i)) h).st.tbl = (seq (j + i)).tbl ∧
+          (handleCbRes (seq (j + i)) h).st.syncTbl = (seq (j + i)).syncTbl ∧
+          SInv (handleCbRes (seq (j + i)) h).st := by
         intro i
-        refine ⟨?_, handleCbRes_tbl _ _, (g.ok _).of_frame (EngineRun.frame_handleCbRes (EngineRun.Frame.refl _ _))⟩
+        refine ⟨?_, handleCbRes_tbl _ _, handleCbRes_syncTbl _ _, sinv_handleCbRes (g.ok _) _⟩
         rw [hrun, hdel _ (hj i)]; rfl
-      exact ih os ctx n _ (hb os) (hsc os)
+      exact ih os ctx n _ _ (hb os) (hsc os)
         (g.cont (k os) n j (handleCbRes (seq j) h).st (fun s => (handleCbRes s h).st)
-          (hdj 0).1 (hdj 0).2.2 (by intro q _; rw [handleCbRes_tbl]) (by rw [handleCbRes_tbl]; exact hu)
+          (hdj 0).1 (hdj 0).2.2.2 (by intro q _; rw [handleCbRes_tbl]) (by rw [handleCbRes_tbl]; exact hu)
+          (by intro x hx; rw [handleCbRes_tbl, handleCbRes_syncTbl]; exact g.syn j x hx)
           (fun i _ => hdj i) (fun i _ => compat_cbRes_inv (g.compat _) (hj i) ho)
           (fun h' hh' hn => absurd hh' hn))
     rcases hor with hnone | rfl
@@ -1703,8 +2208,9 @@ theorem live_cbRes {h : Handle} {k : Outcome → Prog} (ih : ∀ o, LiveAt outc 
       have h0 : handleCbRes (seq 0) h = .stop (.suspended none) (seq 0) := by
         rw [handleCbRes_some hr0, hnone]
       refine key 1 (fun i => hall _ (by omega)) ?_
-      rw [g.next 0, hrun, h0]
-      exact untouched_next outc g.fresh
+      refine g.untouched_next_of 0 ?_
+      rw [hrun, h0]
+      exact g.fresh
     · refine key 0 (fun i => ?_) g.fresh
       cases i with
       | zero => exact hr0
@@ -1715,23 +2221,23 @@ theorem childBefore_enter {s : St} {q : Pos} (hok : StOk s) (hp : Backend.parent
     (hl : lookup s.tbl q = none ∨ ∃ rt, lookup s.tbl q = some rt ∧ rt.kind = .context ∧ rt.status = .started) :
     ∃ s2, childBefore s q = .inr (s2, false) ∧
       (∃ rt, lookup s2.tbl q = some rt ∧ rt.kind = .context ∧ rt.status = .started) ∧
-      ((∃ rt, lookup s.tbl q = some rt) → s2.tbl = s.tbl) := by
+      ((∃ rt, lookup s.tbl q = some rt) → s2.tbl = s.tbl) ∧ s2.syncTbl = s.syncTbl := by
   rcases hl with hl | ⟨rt, hl, hk, hs⟩
-  · obtain ⟨s2, h1, h2⟩ := childBefore_visit hok hp hl
-    exact ⟨s2, h1, ⟨_, h2, rfl, rfl⟩, fun ⟨rt, h⟩ => by rw [hl] at h; cases h⟩
-  · exact ⟨_, childBefore_started hl hs, ⟨rt, hl, hk, hs⟩, fun _ => rfl⟩
+  · obtain ⟨s2, h1, h2, h3⟩ := childBefore_visit hok hp hl
+    exact ⟨s2, h1, ⟨_, h2, rfl, rfl⟩, (fun ⟨rt, h⟩ => by rw [hl] at h; cases h), h3⟩
+  · exact ⟨_, childBefore_started hl hs, ⟨rt, hl, hk, hs⟩, fun _ => rfl, rfl⟩
 
 theorem child_frames {ctx : Pos} {n : Nat} {s s2 : St} {m : Bool} (body : Prog)
     (hB : childBefore s (ctx ++ [n + 1]) = .inr (s2, m)) :
     Frame ctx n s.tbl s2.tbl ∧ Frame ctx n s.tbl (run body (ctx ++ [n + 1]) 0 s2).2.tbl ∧
     (Untouched ctx (n + 1) s.tbl → Untouched ctx (n + 1) (run body (ctx ++ [n + 1]) 0 s2).2.tbl) ∧
-    (StOk s → StOk s2) := by
+    (SInv s → SInv s2) ∧ OnlyAt (ctx ++ [n + 1]) s s2 := by
   have hst : EngineRun.childSt (childBefore s (ctx ++ [n + 1])) = s2 := by rw [hB]; rfl
   have ho := onlyAt_childBefore s (ctx ++ [n + 1])
   rw [hst] at ho
-  refine ⟨frame_of_onlyAt ho, (frame_of_onlyAt ho).trans (run_frame body _ 0 s2).child, fun hu => ?_, fun h => ?_⟩
+  refine ⟨frame_of_onlyAt ho, (frame_of_onlyAt ho).trans (run_frame body _ 0 s2).child, fun hu => ?_, fun h => ?_, ho⟩
   · exact (untouched_of_onlyAt hu ho).frame_child (run_frame body _ 0 s2)
-  · rw [← hst]; exact h.of_frame (EngineRun.frame_childBefore (EngineRun.Frame.refl _ _))
+  · rw [← hst]; exact sinv_childBefore h _
 
 theorem childTail_suspended {c : ChildSpec} {body : Prog} {k : Outcome → Prog} {ctx : Pos} {n : Nat} {s2 : St}
     {d : Option Nat} (hd : (run body (ctx ++ [n + 1]) 0 s2).1 = .suspended d) :
@@ -1743,12 +2249,13 @@ theorem childTail_suspended {c : ChildSpec} {body : Prog} {k : Outcome → Prog}
 theorem compat_body_of_enter {c : ChildSpec} {body : Prog} {k : Outcome → Prog} {ctx : Pos} {n : Nat} {s s2 : St}
     (hc : Compat (.child c body k) ctx n s.tbl)
     (hB : childBefore s (ctx ++ [n + 1]) = .inr (s2, false))
-    (hrec : (lookup s.tbl (ctx ++ [n + 1]) = none ∧ Untouched ctx n s.tbl) ∨
+    (hrec : lookup s.tbl (ctx ++ [n + 1]) = none ∨
       ∃ rt, lookup s.tbl (ctx ++ [n + 1]) = some rt ∧ rt.status = .started)
     (hsame : (∃ rt, lookup s.tbl (ctx ++ [n + 1]) = some rt) → s2.tbl = s.tbl) :
     Compat body (ctx ++ [n + 1]) 0 s2.tbl := by
-  rcases hrec with ⟨_, hu⟩ | ⟨rt, hl, hs⟩
-  · have hst : EngineRun.childSt (childBefore s (ctx ++ [n + 1])) = s2 := by rw [hB]; rfl
+  rcases hrec with hn | ⟨rt, hl, hs⟩
+  · have hu := compat_child_absent_inv hc hn
+    have hst : EngineRun.childSt (childBefore s (ctx ++ [n + 1])) = s2 := by rw [hB]; rfl
     have ho := onlyAt_childBefore s (ctx ++ [n + 1])
     rw [hst] at ho
     refine .fresh (fun x hx => ?_)
@@ -1756,9 +2263,12 @@ theorem compat_body_of_enter {c : ChildSpec} {body : Prog} {k : Outcome → Prog
     exact hu.child x hx
   · rw [hsame ⟨rt, hl⟩]; exact compat_child_body_inv hc hl hs
 
+theorem prefix_child_cases {x ctx : Pos} {m : Nat} (h : ¬ x <+: (ctx ++ [m])) : ¬ x <+: ctx ∧ x ≠ ctx ++ [m] :=
+  ⟨fun hp => h (hp.trans (List.prefix_append _ _)), fun he => h (he ▸ List.prefix_refl _)⟩
+
 theorem live_child {c : ChildSpec} {body : Prog} {k : Outcome → Prog} (ihb : LiveAt outc body)
     (ihk : ∀ o, LiveAt outc (k o)) : LiveAt outc (.child c body k) := by
-  intro ctx n seq hb hsc g
+  intro ctx n keep seq hb hsc g
   cases hb with | child hbb hbk =>
   cases hsc with | child hscb hsck heq =>
   have hrun := run_child c body k ctx n
@@ -1767,44 +2277,64 @@ theorem live_child {c : ChildSpec} {body : Prog} {k : Outcome → Prog} (ihb : L
   have hA : ∀ i, (∀ i', i' < i → ∃ s2, childBefore (seq i') (ctx ++ [n + 1]) = .inr (s2, false) ∧
         ∃ d, (run body (ctx ++ [n + 1]) 0 s2).1 = .suspended d) →
       Untouched ctx (n + 1) (seq i).tbl ∧
-      ((lookup (seq i).tbl (ctx ++ [n + 1]) = none ∧ i = 0) ∨
+      (lookup (seq i).tbl (ctx ++ [n + 1]) = none ∨
         ∃ rt, lookup (seq i).tbl (ctx ++ [n + 1]) = some rt ∧ rt.kind = .context ∧ rt.status = .started) := by
     intro i
     induction i with
-    | zero => intro _; exact ⟨g.fresh.succ, Or.inl ⟨g.fresh.self, rfl⟩⟩
+    | zero => intro _; exact ⟨g.fresh.succ, Or.inl g.fresh.self⟩
     | succ i ihi =>
       intro hP
       obtain ⟨hu, hrec⟩ := ihi (fun i' hi' => hP i' (by omega))
       obtain ⟨s2, hB, d, hd⟩ := hP i (by omega)
-      obtain ⟨s2', hB', ⟨rt, hl2, hk2, hs2⟩, _⟩ := childBefore_enter (g.ok i) (parentOk_of_ctxOk (g.par i) (n + 1))
-        (hrec.imp (fun h => h.1) id)
+      obtain ⟨s2', hB', ⟨rt, hl2, hk2, hs2⟩, _⟩ :=
+        childBefore_enter (g.ok i).ok (parentOk_of_ctxOk (g.par i) (n + 1)) hrec
       rw [hB] at hB'
       cases hB'
-      obtain ⟨_, _, hu3, _⟩ := child_frames body hB
+      obtain ⟨_, _, hu3, _, _⟩ := child_frames body hB
       have hr : run (.child c body k) ctx n (seq i) = (.suspended d, (run body (ctx ++ [n + 1]) 0 s2).2) := by
         rw [hrun, hB]; exact childTail_suspended hd
+      have hfin : (run (.child c body k) ctx n (seq i)).2 = (run body (ctx ++ [n + 1]) 0 s2).2 := by rw [hr]
+      have hl3 : lookup (run body (ctx ++ [n + 1]) 0 s2).2.tbl (ctx ++ [n + 1]) = some rt := by
+        rw [run_frame body _ 0 s2 _ hqq, hl2]
       constructor
-      · rw [g.next i, hr]; exact untouched_next outc (hu3 hu)
-      · refine Or.inr ⟨rt, ?_, hk2, hs2⟩
-        rw [g.next_child i (n + 1), hr, run_frame body _ 0 s2 _ hqq, hl2]
-        show some (fireRec _ rt) = _
-        rw [fireRec_context hk2]
-  -- what entering the body in invocation `i` gives, when its record is absent (`i = 0`) or STARTED
-  have henter : ∀ i, ((lookup (seq i).tbl (ctx ++ [n + 1]) = none ∧ i = 0) ∨
+      · refine g.untouched_next_of i ?_
+        rw [hfin]; exact hu3 hu
+      · -- the START of the context may have been lost: the record is absent, or STARTED
+        have hnc := g.next_child i (n + 1)
+        rw [hfin] at hnc
+        cases hk : lookup (kept (run body (ctx ++ [n + 1]) 0 s2).2 (keep i)) (ctx ++ [n + 1]) with
+        | none => rw [hk] at hnc; exact Or.inl hnc
+        | some r' =>
+          rw [hk] at hnc
+          have hfull : Full (run body (ctx ++ [n + 1]) 0 s2).2 := by rw [← hfin]; exact (g.fin i).full
+          obtain ⟨r'', hl'', hkd, hteq⟩ := kept_mono hfull (keep i) _ _ hk
+          rw [hl3] at hl''
+          cases hl''
+          have hctx : r'.kind = .context := by rw [← hkd]; exact hk2
+          have hnt : r'.status.terminal = false := by
+            cases ht : r'.status.terminal with
+            | false => rfl
+            | true =>
+              have e := hteq ht
+              rw [← e, hs2] at ht
+              cases ht
+          have hnc' : lookup (seq (i + 1)).tbl (ctx ++ [n + 1]) = some r' := by
+            rw [hnc]; show some (fireRec _ r') = _; rw [fireRec_context hctx]
+          obtain ⟨h1, h2⟩ := compat_child_active_inv (g.compat (i + 1)) hnc' hnt
+          exact Or.inr ⟨r', hnc', h1, h2⟩
+  -- what entering the body in invocation `i` gives, when its record is absent or STARTED
+  have henter : ∀ i, (lookup (seq i).tbl (ctx ++ [n + 1]) = none ∨
         ∃ rt, lookup (seq i).tbl (ctx ++ [n + 1]) = some rt ∧ rt.kind = .context ∧ rt.status = .started) →
       ∃ s2, childBefore (seq i) (ctx ++ [n + 1]) = .inr (s2, false) ∧
         (∃ rt, lookup s2.tbl (ctx ++ [n + 1]) = some rt ∧ rt.kind = .context ∧ rt.status = .started) ∧
-        (1 ≤ i → s2.tbl = (seq i).tbl) ∧ Compat body (ctx ++ [n + 1]) 0 s2.tbl := by
+        s2.syncTbl = (seq i).syncTbl ∧ Compat body (ctx ++ [n + 1]) 0 s2.tbl := by
     intro i hrec
-    obtain ⟨s2, hB, hrec2, hsame⟩ := childBefore_enter (g.ok i) (parentOk_of_ctxOk (g.par i) (n + 1))
-      (hrec.imp (fun h => h.1) id)
-    refine ⟨s2, hB, hrec2, fun hi => hsame ?_, compat_body_of_enter (g.compat i) hB ?_ hsame⟩
-    · rcases hrec with ⟨_, h0⟩ | ⟨rt, hl, _⟩
-      · omega
-      · exact ⟨rt, hl⟩
-    · rcases hrec with ⟨hn, h0⟩ | ⟨rt, hl, _, hs⟩
-      · subst h0; exact Or.inl ⟨hn, g.fresh⟩
-      · exact Or.inr ⟨rt, hl, hs⟩
+    obtain ⟨s2, hB, hrec2, hsame, hsync⟩ :=
+      childBefore_enter (g.ok i).ok (parentOk_of_ctxOk (g.par i) (n + 1)) hrec
+    refine ⟨s2, hB, hrec2, hsync, compat_body_of_enter (g.compat i) hB ?_ hsame⟩
+    rcases hrec with hn | ⟨rt, hl, _, hs⟩
+    · exact Or.inl hn
+    · exact Or.inr ⟨rt, hl, hs⟩
   by_cases hall : ∀ i, ∃ s2, childBefore (seq i) (ctx ++ [n + 1]) = .inr (s2, false) ∧
       ∃ d, (run body (ctx ++ [n + 1]) 0 s2).1 = .suspended d
   · -- the body suspends forever: impossible by the induction hypothesis for the body
@@ -1813,19 +2343,19 @@ theorem live_child {c : ChildSpec} {body : Prog} {k : Outcome → Prog} (ihb : L
         (∃ d, (run body (ctx ++ [n + 1]) 0 s2).1 = .suspended d ∧
           run (.child c body k) ctx n (seq i) = (.suspended d, (run body (ctx ++ [n + 1]) 0 s2).2)) ∧
         (∃ rt, lookup s2.tbl (ctx ++ [n + 1]) = some rt ∧ rt.kind = .context ∧ rt.status = .started) ∧
-        StOk s2 ∧ Frame ctx n (seq i).tbl s2.tbl ∧ (1 ≤ i → s2.tbl = (seq i).tbl) ∧
-        Compat body (ctx ++ [n + 1]) 0 s2.tbl := by
+        SInv s2 ∧ Frame ctx n (seq i).tbl s2.tbl ∧ OnlyAt (ctx ++ [n + 1]) (seq i) s2 ∧
+        s2.syncTbl = (seq i).syncTbl ∧ Compat body (ctx ++ [n + 1]) 0 s2.tbl := by
       intro i
       obtain ⟨hu, hrec⟩ := hA i (fun i' _ => hall i')
       obtain ⟨s2, hB, d, hd⟩ := hall i
-      obtain ⟨s2', hB', hrec2, hsame, hcb⟩ := henter i hrec
+      obtain ⟨s2', hB', hrec2, hsync, hcb⟩ := henter i hrec
       rw [hB] at hB'
       cases hB'
-      obtain ⟨hf2, _, _, hok2⟩ := child_frames body hB
+      obtain ⟨hf2, _, _, hok2, hoa⟩ := child_frames body hB
       exact ⟨s2, hB, by rw [hB]; rfl, ⟨d, hd, by rw [hrun, hB]; exact childTail_suspended hd⟩, hrec2, hok2 (g.ok i),
-        hf2, hsame, hcb⟩
-    refine ihb (ctx ++ [n + 1]) 0 (fun i => EngineRun.childSt (childBefore (seq i) (ctx ++ [n + 1]))) hbb hscb
-      ⟨?_, ?_, ?_, ?_, ?_, ?_, ?_, ?_⟩
+        hf2, hoa, hsync, hcb⟩
+    refine ihb (ctx ++ [n + 1]) 0 keep (fun i => EngineRun.childSt (childBefore (seq i) (ctx ++ [n + 1]))) hbb hscb
+      ⟨?_, ?_, ?_, ?_, ?_, ?_, ?_, ?_, ?_⟩
     · intro i
       obtain ⟨s2, _, he, _, _, hok2, _⟩ := hfacts i
       simp only [he]; exact hok2
@@ -1843,25 +2373,30 @@ theorem live_child {c : ChildSpec} {body : Prog} {k : Outcome → Prog} (ihb : L
       obtain ⟨s2, _, he, _, _, _, hf2, _⟩ := hfacts i
       simp only [he]
       exact hf2 h (past_not_inRegion hp)
-    · obtain ⟨s2, hB, he, _, _, _, _, _⟩ := hfacts 0
+    · obtain ⟨s2, hB, he, _, _, _, _, hoa, _⟩ := hfacts 0
       simp only [he]
-      have ho := onlyAt_childBefore (seq 0) (ctx ++ [n + 1])
-      rw [he] at ho
       intro x hx
-      rw [ho x (fun hxe => hqq (hxe ▸ hx))]
+      rw [hoa x (fun hxe => hqq (hxe ▸ hx))]
       exact g.fresh.child x hx
     · intro i
-      obtain ⟨s2, _, he, _, _, _, _, _, hcb⟩ := hfacts i
+      obtain ⟨s2, _, he, _, _, _, _, _, _, hcb⟩ := hfacts i
       simp only [he]; exact hcb
     · intro i
       obtain ⟨s2, _, he, ⟨d, hd, _⟩, _⟩ := hfacts i
       simp only [he]
       exact ⟨d, hd⟩
-    · intro i
+    · intro i x hx
+      obtain ⟨s2, _, he, _, _, _, _, hoa, hsync, _⟩ := hfacts i
+      obtain ⟨hx1, hx2⟩ := prefix_child_cases hx
+      simp only [he]
+      rw [hsync, hoa x hx2]
+      exact g.syn i x hx1
+    · intro i x hx
       obtain ⟨s2, _, he, ⟨d, hd, hr⟩, _⟩ := hfacts i
-      obtain ⟨s2', _, he', _, _, _, _, hsame, _⟩ := hfacts (i + 1)
+      obtain ⟨s2', _, he', _, _, _, _, hoa', _⟩ := hfacts (i + 1)
+      obtain ⟨hx1, hx2⟩ := prefix_child_cases hx
       simp only [he, he']
-      rw [hsame (by omega), g.next i, hr]
+      rw [hoa' x hx2, g.next i x hx1, hr]
   · -- the body ends in some invocation `j`
     have hex : ∃ i, ¬ ∃ s2, childBefore (seq i) (ctx ++ [n + 1]) = .inr (s2, false) ∧
         ∃ d, (run body (ctx ++ [n + 1]) 0 s2).1 = .suspended d := by
@@ -1871,17 +2406,20 @@ theorem live_child {c : ChildSpec} {body : Prog} {k : Outcome → Prog} (ihb : L
     obtain ⟨j, hnP, hmin⟩ := exists_least hex
     obtain ⟨hu, hrec⟩ := hA j (fun i' hi' => Classical.byContradiction (fun hni => hmin i' hi' hni))
     obtain ⟨s2, hB, ⟨rt, hl2, hk2, hs2⟩, _, hcb⟩ := henter j hrec
-    obtain ⟨hf2, hf3, hu3, hok2⟩ := child_frames body hB
+    obtain ⟨hf2, hf3, hu3, hok2, _⟩ := child_frames body hB
     have hnsusp : ∀ d, (run body (ctx ++ [n + 1]) 0 s2).1 ≠ .suspended d := fun d hd => hnP ⟨s2, hB, d, hd⟩
     have hl3 : lookup (run body (ctx ++ [n + 1]) 0 s2).2.tbl (ctx ++ [n + 1]) = some rt := by
       rw [run_frame body _ 0 s2 _ hqq, hl2]
-    have hok3 : StOk (run body (ctx ++ [n + 1]) 0 s2).2 := stOk_run (hok2 (g.ok j))
+    have hinv3 : SInv (run body (ctx ++ [n + 1]) 0 s2).2 := sinv_run (hok2 (g.ok j)) _ _ _
     have hp3 := parentOk_of_ctxOk (ctxOk_of_frame hf3 (g.par j)) (n + 1)
-    have hcp := childAfter_visit c (run body (ctx ++ [n + 1]) 0 s2).1 hok3 hp3 hl3 hk2 hs2
+    have hcp := childAfter_visit c (run body (ctx ++ [n + 1]) 0 s2).1 hinv3.ok hp3 hl3 hk2 hs2
     have hoa := onlyAt_childAfter (run body (ctx ++ [n + 1]) 0 s2).2 (ctx ++ [n + 1]) c false
       (run body (ctx ++ [n + 1]) 0 s2).1
     have hfa := EngineRun.frame_childAfter (c := c) (m := false) (e := (run body (ctx ++ [n + 1]) 0 s2).1)
       (EngineRun.Frame.refl (ctx ++ [n + 1]) (run body (ctx ++ [n + 1]) 0 s2).2)
+    have hwa := EngineRun.wal_childAfter (c := c) hB rfl hinv3.wal
+    have hfu := full_childAfter (p := ctx ++ [n + 1]) (c := c) (m := false)
+      (e := (run body (ctx ++ [n + 1]) 0 s2).1) hinv3.full
     have hmv := EngineExec.childAfter_mv (run body (ctx ++ [n + 1]) 0 s2).2 (ctx ++ [n + 1]) c false
       (run body (ctx ++ [n + 1]) 0 s2).1
     obtain ⟨d, hd⟩ := g.susp j
@@ -1896,9 +2434,10 @@ theorem live_child {c : ChildSpec} {body : Prog} {k : Outcome → Prog} (ihb : L
       · rw [hcr] at hd; cases hd
       · exact hnsusp d (by rw [← he]; exact hd)
     | deliver o s4 =>
-      rw [hca] at hcp hoa hfa hmv
-      simp only [EngineRun.st_deliver] at hoa hfa hmv
-      obtain ⟨r', hl4, hd4, hcases⟩ := hcp
+      rw [hca] at hcp hoa hfa hmv hwa hfu
+      simp only [EngineRun.st_deliver] at hoa hfa hmv hwa hfu
+      obtain ⟨r', hl4, hd4, hsy4, hcases⟩ := hcp
+      have hinv4 : SInv s4 := ⟨hinv3.ok.of_frame hfa, hwa, hfu⟩
       have hfix : fireRec (outc (ctx ++ [n + 1])) r' = r' := fireRec_terminal (done_terminal hd4)
       have hrun0 : run (.child c body k) ctx n (seq j) = run (k o) ctx (n + 1) s4 := by
         rw [hrun, hB]; simp only [childTail, hca]
@@ -1925,38 +2464,44 @@ theorem live_child {c : ChildSpec} {body : Prog} {k : Outcome → Prog} (ihb : L
         have g' := g.phase2 (k (.ok v)) j s4
           (fun s => (deliverAt (run body (ctx ++ [n + 1]) 0 (emit s (.enter (ctx ++ [n + 1]) .context 0 none))).2
             (ctx ++ [n + 1]) (.ok v)).st) r'
-          hrun0 (hok3.of_frame hfa) (hf3.trans (frame_of_onlyAt hoa)) (untouched_of_onlyAt (hu3 hu) hoa)
-          hl4 (by rw [hfix]; exact done_terminal hd4) (Or.inr hfix.symm)
-          (fun t => Returns body (ctx ++ [n + 1]) 0 t v) hret4
+          hrun0 hinv4 (hf3.trans (frame_of_onlyAt hoa)) (untouched_of_onlyAt (hu3 hu) hoa)
+          (fun x _ => syn_of_synced hsy4 x)
+          hl4 (Or.inl (done_terminal hd4)) (by rw [hfix]; exact done_terminal hd4) (Or.inr hfix.symm)
+          (fun t => Returns body (ctx ++ [n + 1]) 0 t v)
+          (fun t u imm t' ha h => h.mono (apply_mono ha))
+          ⟨hret4, by rw [hsy4.2]; exact hret4⟩
           (by
-            intro t T htp hmono hvis hlk
+            intro K t' htp hvis hlk hoff
             rw [hfix] at hlk
-            have h1 : Returns body (ctx ++ [n + 1]) 0 (fireAll outc T) v :=
-              (htp.mono hmono).mono (fireAll_evolve outc T).mono
-            have hlf : lookup (fireAll outc T) (ctx ++ [n + 1]) = some r' := by
-              rw [lookup_visible] at hlk
-              split at hlk
-              · cases hlk
-              · exact hlk
-            exact h1.visible (hvis.child (hides_false_of hlf (Or.inr hrc'))))
+            have h1 : Returns body (ctx ++ [n + 1]) 0 (fireAll outc K) v := htp.mono (fireAll_evolve outc K).mono
+            have h2 := h1.visible (hvis.child (hides_false_of hlk (Or.inr hrc')))
+            exact h2.congr_off ctx (List.prefix_append _ _) hoff)
+          (fun t t' hoff h => h.congr_off ctx (List.prefix_append _ _) hoff)
           (by
-            intro s hl htp
+            intro s hs hl htp
             rw [hfix] at hl
             obtain ⟨s3', hrun3, hsame⟩ := run_of_returns htp
               (emit s (.enter (ctx ++ [n + 1]) .context 0 none)) rfl
-            refine ⟨?_, ?_, fun h => ?_⟩
+            have hl3' : lookup (run body (ctx ++ [n + 1]) 0
+                (emit s (.enter (ctx ++ [n + 1]) .context 0 none))).2.tbl (ctx ++ [n + 1]) = some r' := by
+              rw [hrun3, hsame.tbl]; exact hl
+            refine ⟨?_, ?_, ?_, ?_⟩
             · rw [hrun, childBefore_replay hl hs' hrc']
               simp only [childTail, hrun3, EngineH.childAfter_replay]
               rw [deliverAt_st]
               rfl
             · rw [EngineH.deliverAt_st_tbl, hrun3]; exact hsame.tbl
-            · exact stOk_deliverAt
-                (stOk_run (s := emit s (.enter (ctx ++ [n + 1]) .context 0 none)) (h.of_same rfl rfl)) _ _)
+            · rw [deliverAt_st_syncTbl, hrun3]; exact hsame.syncTbl
+            · have hse : SInv (emit s (.enter (ctx ++ [n + 1]) .context 0 none)) := by
+                have := sinv_childBefore hs (ctx ++ [n + 1])
+                rw [childBefore_replay hl hs' hrc'] at this
+                exact this
+              exact sinv_deliverAt (sinv_run hse _ _ _) _ _ ⟨r', hl3', done_terminal hd4⟩)
           (by
             intro t hc hl htp
             rw [hfix] at hl
             exact compat_child_replay_inv hc hl hs' hrc' htp)
-        exact ihk _ ctx (n + 1) _ (hbk _) (hsck _) g'
+        exact ihk _ ctx (n + 1) _ _ (hbk _) (hsck _) g'
       · have hrc : r'.status = .succeeded → r'.replayChildren = false := by
           rcases hcases with ⟨v, hev, _, hv, _⟩ | ⟨ex, _, hfail, _⟩
           · intro _
@@ -1978,23 +2523,26 @@ theorem live_child {c : ChildSpec} {body : Prog} {k : Outcome → Prog} (ihb : L
         have g' := g.phase2 (k (outcomeOf r')) j s4
           (fun s => (deliverAt s (ctx ++ [n + 1]) (outcomeOf r')).st) r'
           (by rw [hrun0, hko])
-          (hok3.of_frame hfa) (hf3.trans (frame_of_onlyAt hoa)) (untouched_of_onlyAt (hu3 hu) hoa)
-          hl4 (by rw [hfix]; exact done_terminal hd4) (Or.inr hfix.symm)
-          (fun _ => True) trivial (fun _ _ _ _ _ _ => trivial)
+          hinv4 (hf3.trans (frame_of_onlyAt hoa)) (untouched_of_onlyAt (hu3 hu) hoa)
+          (fun x _ => syn_of_synced hsy4 x)
+          hl4 (Or.inl (done_terminal hd4)) (by rw [hfix]; exact done_terminal hd4) (Or.inr hfix.symm)
+          (fun _ => True) (fun _ _ _ _ _ _ => trivial) ⟨trivial, trivial⟩ (fun _ _ _ _ _ _ => trivial)
+          (fun _ _ _ _ => trivial)
           (by
-            intro s hl _
+            intro s hs hl _
             rw [hfix] at hl
-            refine ⟨?_, EngineH.deliverAt_st_tbl _ _ _, fun h => stOk_deliverAt h _ _⟩
+            refine ⟨?_, EngineH.deliverAt_st_tbl _ _ _, deliverAt_st_syncTbl _ _ _,
+              sinv_deliverAt hs _ _ ⟨r', hl, done_terminal hd4⟩⟩
             rw [hrun, childBefore_done hl hd4 hrc, deliverAt_st]
             rfl)
           (by
             intro t hc hl _
             rw [hfix] at hl
             exact compat_child_done_inv hc hl hd4 hrc)
-        exact ihk _ ctx (n + 1) _ (hbk _) (hsck _) g'
+        exact ihk _ ctx (n + 1) _ _ (hbk _) (hsck _) g'
 
 /-- **No infinite all-suspended good execution**, for every bounded, replay-stable program
-fragment, wherever it is placed. -/
+fragment, wherever it is placed and whatever the backend keeps of the asynchronous updates. -/
 theorem live (hout : ∀ q, outc q ≠ .none) (p : Prog) : LiveAt outc p := by
   induction p with
   | ret v => exact live_ret v
@@ -2498,6 +3046,12 @@ theorem pb_run (p : Prog) (ctx : Pos) (n : Nat) (s : St) (h : PB s) : PB (run p 
     (fun _ _ _ _ _ _ _ _ _ _ _ h => pb_childAfter h)
     p ctx n s h
 
+/-- **A parking record of the acknowledged table is in everything the backend may keep**: it was
+written synchronously, and the asynchronous updates in flight (STARTs) never touch it. -/
+theorem parked_kept {s : St} (hw : EngineRun.WAL s) {q : Pos} {r : OpRec}
+    (hl : lookup s.syncTbl q = some r) (hp : Parked r = true) (k : Nat) : lookup (kept s k) q = some r :=
+  applyPrefix_keeps s.imm (Or.inr hp) s.pending k s.syncTbl hw.pending hl
+
 /-- PENDING records are steps or wait-for-conditions (B1: only RETRY makes a record PENDING). -/
 def PendKinded (t : Tbl) : Prop :=
   ∀ q r, lookup t q = some r → r.status = .pending → r.kind = .step ∨ r.kind = .wfc
@@ -2593,99 +3147,97 @@ theorem wake_enabled {t : Tbl} {q : Pos} {r : OpRec} (hl : lookup t q = some r) 
 /-! ## Executions driven by the good environment -/
 
 /-- One round: an invocation with crash budget `b` (no injected checkpoint fault, no completion at
-START) on the part of the table the backend hands out, then every enabled event fires. -/
-def goodRound (outc : Pos → Backend.Immediate) (p : Prog) (b : Nat) (t : Tbl) : End × Tbl :=
+START) on the part of the table the backend hands out; the backend keeps the acknowledged table plus
+the first `k` asynchronous updates still in flight when the invocation ended (the others are
+abandoned — whatever the ending); then every enabled event fires. -/
+def goodRound (outc : Pos → Backend.Immediate) (p : Prog) (b k : Nat) (t : Tbl) : End × Tbl :=
   ((Engine.invoke p (Exec.visible t) b none (fun _ => .none)).1,
    fireAll outc (finalTbl (Engine.invoke p (Exec.visible t) b none (fun _ => .none)).1
-     (Engine.invoke p (Exec.visible t) b none (fun _ => .none)).2 0))
+     (Engine.invoke p (Exec.visible t) b none (fun _ => .none)).2 k))
 
-/-- The backend table before round `i` (the execution starts with the empty table). -/
-def goodTbl (outc : Pos → Backend.Immediate) (p : Prog) (budget : Nat → Nat) : Nat → Tbl
+/-- The backend table before round `i` (the execution starts with the empty table); round `i` has
+crash budget `budget i` and keeps `keep i` asynchronous updates. -/
+def goodTbl (outc : Pos → Backend.Immediate) (p : Prog) (budget keep : Nat → Nat) : Nat → Tbl
   | 0 => []
-  | i + 1 => (goodRound outc p (budget i) (goodTbl outc p budget i)).2
+  | i + 1 => (goodRound outc p (budget i) (keep i) (goodTbl outc p budget keep i)).2
 
 /-- How round `i` ends. -/
-def goodEnd (outc : Pos → Backend.Immediate) (p : Prog) (budget : Nat → Nat) (i : Nat) : End :=
-  (goodRound outc p (budget i) (goodTbl outc p budget i)).1
+def goodEnd (outc : Pos → Backend.Immediate) (p : Prog) (budget keep : Nat → Nat) (i : Nat) : End :=
+  (goodRound outc p (budget i) (keep i) (goodTbl outc p budget keep i)).1
 
 /-- The state in which the invocation of round `i` ends. -/
-def goodSt (outc : Pos → Backend.Immediate) (p : Prog) (budget : Nat → Nat) (i : Nat) : St :=
-  (Engine.invoke p (Exec.visible (goodTbl outc p budget i)) (budget i) none (fun _ => .none)).2
+def goodSt (outc : Pos → Backend.Immediate) (p : Prog) (budget keep : Nat → Nat) (i : Nat) : St :=
+  (Engine.invoke p (Exec.visible (goodTbl outc p budget keep i)) (budget i) none (fun _ => .none)).2
 
 /-- A round ends `crashed` only when the crash budget of its invocation is exhausted. -/
-theorem good_crash_budget (outc : Pos → Backend.Immediate) (p : Prog) (budget : Nat → Nat) (i : Nat)
-    (h : goodEnd outc p budget i = .crashed) : (goodSt outc p budget i).budget = 0 :=
+theorem good_crash_budget (outc : Pos → Backend.Immediate) (p : Prog) (budget keep : Nat → Nat) (i : Nat)
+    (h : goodEnd outc p budget keep i = .crashed) : (goodSt outc p budget keep i).budget = 0 :=
   run_crashed_budget p [] 0 _ h
 
 /-- The invocation of a good round is a round of `Exec.runRound`. -/
-theorem goodRound_eq_runRound (outc : Pos → Backend.Immediate) (p : Prog) (b : Nat) (t : Tbl) :
-    (Exec.runRound p t (.invoke b none 0 [])).ending = some (goodRound outc p b t).1 ∧
-    fireAll outc (Exec.runRound p t (.invoke b none 0 [])).tbl = (goodRound outc p b t).2 :=
+theorem goodRound_eq_runRound (outc : Pos → Backend.Immediate) (p : Prog) (b k : Nat) (t : Tbl) :
+    (Exec.runRound p t (.invoke b none k [])).ending = some (goodRound outc p b k t).1 ∧
+    fireAll outc (Exec.runRound p t (.invoke b none k [])).tbl = (goodRound outc p b k t).2 :=
   ⟨rfl, rfl⟩
 
 /-- Every table of a good execution of a well-formed program is `Compat`ible with it. -/
-theorem good_compat (outc : Pos → Backend.Immediate) {p : Prog} (hsc : Scoped p [] 0) (budget : Nat → Nat) :
-    ∀ i, Compat p [] 0 (goodTbl outc p budget i) := by
+theorem good_compat (outc : Pos → Backend.Immediate) {p : Prog} (hsc : Scoped p [] 0) (budget keep : Nat → Nat) :
+    ∀ i, Compat p [] 0 (goodTbl outc p budget keep i) := by
   intro i
   induction i with
   | zero => exact compat_nil p [] 0
   | succ i ih =>
-    exact compat_evolve ((invoke_ok hsc ih (budget i) none (fun _ => .none)).2 0) (fireAll_evolve outc _)
+    exact compat_evolve ((invoke_ok hsc ih (budget i) none (fun _ => .none)).2 (keep i)) (fireAll_evolve outc _)
 
-/-- **Liveness.**  For every budget plan, some round does not end `suspended`, and all rounds
-before it do. -/
+/-- **Liveness.**  For every budget plan and every keep plan, some round does not end `suspended`,
+and all rounds before it do. -/
 theorem good_terminates {outc : Pos → Backend.Immediate} (hout : ∀ q, outc q ≠ .none) (p : Prog)
-    (hb : Bounded p) (hsc : LScoped p [] 0) (budget : Nat → Nat) :
-    ∃ n, (∀ i, i < n → ∃ d, goodEnd outc p budget i = .suspended d) ∧
-      ∀ d, goodEnd outc p budget n ≠ .suspended d := by
-  have hex : ∃ n, ¬ ∃ d, goodEnd outc p budget n = .suspended d := by
+    (hb : Bounded p) (hsc : LScoped p [] 0) (budget keep : Nat → Nat) :
+    ∃ n, (∀ i, i < n → ∃ d, goodEnd outc p budget keep i = .suspended d) ∧
+      ∀ d, goodEnd outc p budget keep n ≠ .suspended d := by
+  have hex : ∃ n, ¬ ∃ d, goodEnd outc p budget keep n = .suspended d := by
     apply Classical.byContradiction
     intro hne
-    have hall : ∀ i, ∃ d, goodEnd outc p budget i = .suspended d :=
+    have hall : ∀ i, ∃ d, goodEnd outc p budget keep i = .suspended d :=
       fun i => Classical.byContradiction (fun hni => hne ⟨i, hni⟩)
-    refine live hout p [] 0
-      (fun i => initSt (Exec.visible (goodTbl outc p budget i)) (budget i) none (fun _ => .none)) hb hsc
-      ⟨fun i => stOk_init _ _, fun i => ctxVis_root _, fun i => Or.inl rfl,
+    refine live hout p [] 0 keep
+      (fun i => initSt (Exec.visible (goodTbl outc p budget keep i)) (budget i) none (fun _ => .none)) hb hsc
+      ⟨fun i => sinv_init _ _, fun i => ctxVis_root _, fun i => Or.inl rfl,
         fun h hh => ?_, fun _ _ => rfl,
-        fun i => (good_compat outc hsc.scoped budget i).visible (ctxVis_root _), hall, ?_⟩
-    · obtain ⟨r, hr⟩ := pastOk_root [] h hh
-      cases hr
-    · intro i
-      obtain ⟨d, hd⟩ := hall i
-      show Exec.visible (goodTbl outc p budget (i + 1)) = _
-      have : goodTbl outc p budget (i + 1) = fireAll outc (finalTbl (goodEnd outc p budget i)
-          (Engine.invoke p (Exec.visible (goodTbl outc p budget i)) (budget i) none (fun _ => .none)).2 0) := rfl
-      rw [this, hd]
-      rfl
+        fun i => (good_compat outc hsc.scoped budget keep i).visible (ctxVis_root _), hall,
+        fun _ _ _ => rfl, fun _ _ _ => rfl⟩
+    obtain ⟨r, hr⟩ := pastOk_root [] h hh
+    cases hr
   obtain ⟨n, hn, hmin⟩ := exists_least hex
   exact ⟨n, fun i hi => Classical.byContradiction (fun h => hmin i hi h), fun d hd => hn ⟨d, hd⟩⟩
 
 /-- **No round of a good execution of a well-formed program ends `ckptFailed`**: the backend accepts
 every update (`EngineCompat.invoke_ok`), and there is no injected fault. -/
-theorem good_no_fault (outc : Pos → Backend.Immediate) {p : Prog} (hsc : Scoped p [] 0) (budget : Nat → Nat)
-    (i : Nat) : goodEnd outc p budget i ≠ .ckptFailed := by
+theorem good_no_fault (outc : Pos → Backend.Immediate) {p : Prog} (hsc : Scoped p [] 0) (budget keep : Nat → Nat)
+    (i : Nat) : goodEnd outc p budget keep i ≠ .ckptFailed := by
   intro he
-  have hnr := (invoke_ok hsc (good_compat outc hsc budget i) (budget i) none (fun _ => .none)).1
+  have hnr := (invoke_ok hsc (good_compat outc hsc budget keep i) (budget i) none (fun _ => .none)).1
   obtain ⟨u, hu⟩ := run_ckptFailed_rejected p [] 0 _ rfl he
   have := hnr _ hu
   cases this
 
-/-- **Liveness, final form.**  A good execution of a bounded, replay-stable program
-consists of finitely many suspended rounds followed by a round that returns, raises, or crashes
-(the latter only if its crash budget is exhausted). -/
+/-- **Liveness, final form.**  A good execution of a bounded, replay-stable program — whatever the
+crash budgets, whatever the backend keeps of the asynchronous updates in flight at the end of each
+invocation — consists of finitely many suspended rounds followed by a round that returns, raises,
+or crashes (the latter only if its crash budget is exhausted). -/
 theorem good_terminates' {outc : Pos → Backend.Immediate} (hout : ∀ q, outc q ≠ .none) (p : Prog)
-    (hb : Bounded p) (hsc : LScoped p [] 0) (budget : Nat → Nat) :
-    ∃ n, (∀ i, i < n → ∃ d, goodEnd outc p budget i = .suspended d) ∧
-      ((∃ v, goodEnd outc p budget n = .returned v) ∨ (∃ e, goodEnd outc p budget n = .raised e) ∨
-        (goodEnd outc p budget n = .crashed ∧ (goodSt outc p budget n).budget = 0)) := by
-  obtain ⟨n, h1, h2⟩ := good_terminates hout p hb hsc budget
+    (hb : Bounded p) (hsc : LScoped p [] 0) (budget keep : Nat → Nat) :
+    ∃ n, (∀ i, i < n → ∃ d, goodEnd outc p budget keep i = .suspended d) ∧
+      ((∃ v, goodEnd outc p budget keep n = .returned v) ∨ (∃ e, goodEnd outc p budget keep n = .raised e) ∨
+        (goodEnd outc p budget keep n = .crashed ∧ (goodSt outc p budget keep n).budget = 0)) := by
+  obtain ⟨n, h1, h2⟩ := good_terminates hout p hb hsc budget keep
   refine ⟨n, h1, ?_⟩
-  have h3 := good_no_fault outc hsc.scoped budget n
-  cases he : goodEnd outc p budget n with
+  have h3 := good_no_fault outc hsc.scoped budget keep n
+  cases he : goodEnd outc p budget keep n with
   | returned v => exact Or.inl ⟨v, rfl⟩
   | raised e => exact Or.inr (Or.inl ⟨e, rfl⟩)
   | suspended d => exact absurd he (h2 d)
-  | crashed => exact Or.inr (Or.inr ⟨rfl, good_crash_budget outc p budget n he⟩)
+  | crashed => exact Or.inr (Or.inr ⟨rfl, good_crash_budget outc p budget keep n he⟩)
   | ckptFailed => exact absurd he h3
 
 end EngineLive
